@@ -12,1405 +12,1212 @@ Definition show_fres (r : fres) : string :=
   end.
 Definition check (rs : list rune) : string := digest (show_fres (format_res rs)).
 Definition full (rs : list rune) : string := show_fres (format_res rs).
-Eval vm_compute in ("<<<M443>>>" ++ check (runes_of_ascii "// `tick` ""quote"" 'q'
-packet A
-{
-@lengthOf(
-msg_type )
-repeat
-int64	rootA
-// " ++ [27880; 37322]%N ++ runes_of_ascii "
-// `tick` ""quote"" 'q'
-,x
-    ,
-@calculatedFrom( """"
-) //x
-x @lengthOf(// @lengthOf(
-trueish )
-, match
-    x
-as x_y_z
-{
-""a\""b"": // trailing space 
-packetx}
-    , packetx @calculatedFrom("""" )
-`u8 x,` ,
-float32
-u128 `crlf
-line` , match x
-    as
-T { [ ""packet""
-    ]
-: body} , x_y_z
-@calculatedFrom( """" ) ,
-    rootA
-tag ,
-    } root packet
-    body
-// " ++ [27880; 37322]%N ++ runes_of_ascii "
-/// triple
-{@calculatedFrom( ""a\\""
-)
-    repeat i8
-metadata ,	@calculatedFrom( """ ++ [128512]%N ++ runes_of_ascii """
-    )
-    repeat	pack string_,@rightPad
-    (//x
-' ') char[ 10 ]
-calculatedFrom@lengthOf(  pack)`doc`	,	@calculatedFrom(
-    ""it's"" //	t
-) repeat Packet
-{// " ++ [27880; 37322]%N ++ runes_of_ascii "
-match options1 as
-body
-{ ""\n""
-: Foo,
-3 : //
-asx , }
-    ,} , @lengthOf( As
-)float64 Logon @calculatedFrom( """" )
-    /// triple
-    ,	i64_ {match  x_y_z
-as string_  { 42: pack ""\" ++ [233]%N ++ runes_of_ascii """ // " ++ [128512]%N ++ runes_of_ascii " emoji
-: rootA , 255
-    :lengthOf 4294967296
-:tag ,
-} , }  , @tag( 3 )
-    @tag( 7  )	@rightPad ()repeat
-//x
-//x
-uint64 u128, int16
-    packetx // " ++ [27880; 37322]%N ++ runes_of_ascii "
-`" ++ [233]%N ++ runes_of_ascii "`
-// " ++ [27880; 37322]%N ++ runes_of_ascii "
+Eval vm_compute in ("<<<M8>>>" ++ check (runes_of_ascii "MetaData string_{
+} packet
+    Packet
 // c
-,
-repeat
-metadata
-//
-/// triple
-len
-//x
-// trailing space 
-,
-} packet rootA{ repeat A{
-    repeat T {roots @lengthOf( i64_ )
-    ,
-u16
-    tag @calculatedFrom( ""packet"" )  ,  string falsey @calculatedFrom(
-    ""\n"" ) ,
-match x as u8x
-//	t
-// " ++ [27880; 37322]%N ++ runes_of_ascii "
-{ 0 // trailing space 
-: string_
-,
-"""" :  _x""\" ++ [233]%N ++ runes_of_ascii """/// triple
-:
-    MetaDataX , } , },}	,
-    @calculatedFrom(	""a\""b"") repeat
-    i16 i8i8  ,
-repeat
-float32 BodyLength `two words` , @leftPad
-(
-    ) u32 _x // packet A { u8 x, }
-@calculatedFrom( ""CRC32"" ), @leftPad (
-' '	) crc @lengthOf( o )
-`u8 x,`  , @lengthOf(Packet )	msg_type
-Z9_  , u { repeat o, }
-, }
-packet rootA
-{ repeat T uint8x,
-}
-    //	t
-    packet x_y_z { @tag( 255 // " ++ [128512]%N ++ runes_of_ascii " emoji
-)  float64
-lengthOf ,@rightPad
-    // " ++ [128512]%N ++ runes_of_ascii " emoji
-    ( '0' )
-    len
-@calculatedFrom( ""a\\""
-) ,
-uint32 Logon	@calculatedFrom(  ""`tick`"" //	t
-) `it's`
-, @rightPad (
-    ) zchar[ 00
-    ]  len ,	@tag( // packet A { u8 x, }
-3)char[ 255 ] Header//x
-`{ , }` ,  match Logon	as
-metadata { ""{,}""
-    : pack , } , }")).
-Eval vm_compute in ("<<<M4300>>>" ++ check (runes_of_ascii "  MetaData stringy { 
-} packet 
-Packet
-    //	t
-  // c
-
-  {
-
-char[
-007
-]o @calculatedFrom( ""1"" 
-)//	t
-  ,	// @lengthOf(
-		}
-    packet  o	{u128
-    {
-    u8 crc  ,  zchar[
-    1]	_x 
-@lengthOf(
-Z9_ ) 
-	    /// triple
-	`doc`
-
-,char[
-
-    7
-] 
-falsey 
-,}	, @lengthOf(int 
-)
-
-match
-	chars as
-asx
-
-    { 
-[
-    255
-]	:x_y_z ,
-255
-:	o
-0123456789:	a1  ,
-""// no comment"":	trueish
-,
-	} ,
-
-    }packet
-	Z9_ 
+// c
 {
-	@rightPad
-    ( 
-'0' ) @tag(	00)
-
-    f32 
-uint8x
-
-    @calculatedFrom( 	 //	t
-
-""" ++ [128512]%N ++ runes_of_ascii """ )
-	, } packet
-	leftPad  {
-
-match
-roots	as
-    trueish
-
-    {
-[
-    ""{,}"" ,
-0 	 // " ++ [128512]%N ++ runes_of_ascii " emoji
-    ]
-:  BodyLength 
-, 
-65535
-
-    :
-
-    As 
-65535 
-:
-
-    zchar  ,
-
-    3  :rootA, 255
-:
-x_y_z,
-    },
-@leftPad ()
-	float32
-x_y_z, repeat T
-
-    { u128
-	@calculatedFrom(
-	""CRC32""
-)
-    ,
-
-    char[] 
-tag
-    @lengthOf(MetaDataX  )	, float
-rootA
-,
-Foo
-
-    @calculatedFrom(
-""packet""  ) , 
-} 
-// `tick` ""quote"" 'q'
-
-//x
-      , match
-
-    x 
-as
-msg_type	{
-    3:
-u 
-}
-	,  @lengthOf(
-tag 
-    /// triple
-	/// triple
-
-) string
-	a1 
-,	@rightPad (
-    '0'	)	@tag( 
-  // a // b
-  // a // b
-      7
-)
-match Logon
-    // a // b
-      //	t
-      as 
-
-    /// triple
-falsey {  ""CRC32""  // c
-  : 
-
-    // " ++ [27880; 37322]%N ++ runes_of_ascii "
-  x  //
-    ,4294967296 :
-    Header
-
-    ,
-
-    ""// no comment""
-    // " ++ [128512]%N ++ runes_of_ascii " emoji
-	:
-	charz 
-00
-    :	// trailing space 
-u128
-    } ,  @calculatedFrom( ""a\""b""
-)
-@calculatedFrom(
-""a\""b""
-)
-    @tag(
-	    // " ++ [128512]%N ++ runes_of_ascii " emoji
-	42 
-	    //x
-	)
-	repeat zchar[ 
-00 ]
-
-falsey  ,
-// " ++ [27880; 37322]%N ++ runes_of_ascii "
-	@tag(  // a // b
-4294967296
-
-)	@calculatedFrom(""abc""
-)
-
-    @rightPad (' '
-)
-	crc
-
-@calculatedFrom( ""\" ++ [233]%N ++ runes_of_ascii """ // " ++ [128512]%N ++ runes_of_ascii " emoji
-	)	,
-u16
-metadata
-,
-	} ")).
-Eval vm_compute in ("<<<M4015>>>" ++ check (runes_of_ascii "packet zchar {
-    char[] string_,
     // @lengthOf(
-    msg_type,
-    match roots as metadata {
-        3 : Logon,
-        [
-            3, 00, 7, 65535, 3,
-            ""a\\"", ""1"", ""a\\""
-        ] : x_y_z,
-        0123456789 : o,
-        ""\" ++ [233]%N ++ runes_of_ascii """ : x,
-        ""CRC32"" : Foo,
+    zchar[ 65535 ]	metadata  ,} MetaData  body { u
+    packetx ,
+char[] roots `" ++ [233]%N ++ runes_of_ascii "`,
+i32 Header , uint32
+    packetx /// triple
+,	} packet Foo  { @rightPad ()
+match crc
+    as u128{ // c
+""it's"":	As , 0
+    :x_y_z , """"
+:
+msg_type } // @lengthOf(
+, match pack
+as	x_y_z {255: msg_type , } , i8 A , int8 BodyLength
+@lengthOf( tag ) , @calculatedFrom( ""CRC32""
+) match int as Header {
+4294967296	: x_y_z ,
+    // @lengthOf(
+    }	, match
+chars	as // a // b
+calculatedFrom {  [0 ,
+0
+, // c
+1 , 0123456789 , 00 // c
+, ""a\""b""	,// `tick` ""quote"" 'q'
+4294967296 ]:
+stringy
+    ,""`tick`"" : T }, @tag( 0 )@tag(
+    1 )
+@lengthOf(u8x ) u8x {  body
+    , repeat// trailing space 
+calculatedFrom x_y_z `two words` ,  } , match  falsey
+as leftPad {	007	:  A, [""" ++ [28040; 24687]%N ++ runes_of_ascii """ ] : tag ,
+1:
+    //
+    Pad ,}
+    , // c
+float64
+repeatCount , @tag(10 ) match stringy
+    as
+Logon {7:
+Pad, }	, }
+    packet Packet {
+@calculatedFrom( ""\n"" ) @calculatedFrom( ""`tick`"" ) matchKey
+, @lengthOf( zchar )
+roots	{repeat i16 Z9_, match
+    repeatCount as
+stringy { [ ""x y""
+    ]:packetx	, [""" ++ [128512]%N ++ runes_of_ascii """ , ""x y""	, ""\n"" ] : crc , },}
+// `tick` ""quote"" 'q'
+//x
+, // packet A { u8 x, }
+match // trailing space 
+tag as
+a1 // " ++ [128512]%N ++ runes_of_ascii " emoji
+{ ""abc"": packetx 1
+: u8x 1 : body
+007 : leftPad
+0123456789
+    :Header} ,
+i16 x_y_z
+    ,@calculatedFrom( ""{,}""
+    )o `it's` , string_@calculatedFrom( ""it's"" ) `crlf
+line` , match i8i8 as lengthOf
+    { [ 1 , ""a\\"" ,
+    42 ,""""  ,
+""a\\"" ]
+    // " ++ [128512]%N ++ runes_of_ascii " emoji
+    : o , 10
+    :
+Foo //x
+[7 ]:// trailing space 
+lengthOf , } ,repeat
+    A { repeat T { char[
+    007
+    //x
+    ] i64_ @lengthOf( Packet
+    // a // b
+    ) ,
+    match T as repeatCount // " ++ [27880; 37322]%N ++ runes_of_ascii "
+{  ""x y"" :
+As
+,
+    } , repeat metadata, msg_type
+{
+float64//
+float , i8 o`u8 x,` // " ++ [27880; 37322]%N ++ runes_of_ascii "
+,char[
+0 ]	A @calculatedFrom(
+""1""
+    )
+    `two words` //	t
+, i8 body
+    @lengthOf( Packet), } ,//
+} ,rootA{
+f32a
+@lengthOf( pack
+    ), }, repeat char[] u , }
+, }
+")).
+Eval vm_compute in ("<<<M1006>>>" ++ check (runes_of_ascii "root packet len
+    { @lengthOf(
+// " ++ [128512]%N ++ runes_of_ascii " emoji
+//	t
+A ) repeat u64 packetx
+,@calculatedFrom( ""a	b"" ) repeat charz { BodyLength calculatedFrom,
+    leftPad // " ++ [128512]%N ++ runes_of_ascii " emoji
+`it's` ,
+int32 // `tick` ""quote"" 'q'
+msg_type// " ++ [27880; 37322]%N ++ runes_of_ascii "
+, float64 i64_ , } ,
+    // c
+    string
+    MetaDataX
+@lengthOf(roots )
+, @lengthOf( len )
+@lengthOf( Logon )
+// " ++ [128512]%N ++ runes_of_ascii " emoji
+// @lengthOf(
+calculatedFrom @calculatedFrom( ""// no comment"" ) , zchar[3
+// a // b
+//	t
+] MetaDataX@calculatedFrom( ""it's""
+    ) `a\`
+,@leftPad//
+('0' )match//
+Foo as
+As { [ ""{,}"" , 255
+] : metadata , ""{,}"":
+Header,
+    // trailing space 
+    [""\n"" ] : stringy , ""a	b"" : x ,} // `tick` ""quote"" 'q'
+, @tag( 0123456789
+    // packet A { u8 x, }
+    ) Foo  {	char[ 0 ]// @lengthOf(
+rootA
+, },
+    // packet A { u8 x, }
+    i64_
+leftPad
+`a\` ,string A , match BodyLength as float  {
+7 : MetaDataX , 007:
+    int,  }
+,
+    } MetaData
+    crc{ u8 o `crlf
+line` ,	} // " ++ [128512]%N ++ runes_of_ascii " emoji
+packet crc
+{repeat
+    uint32 Foo`a\` , /// triple
+a1 ,
+@rightPad (' '
+    )repeat roots
+    ,
+@calculatedFrom(
+    """ ++ [233]%N ++ runes_of_ascii "t" ++ [233]%N ++ runes_of_ascii """ )  @rightPad ( ) BodyLength ,  repeat x_y_z ``,@rightPad ( ) repeat string pack  `
+` , @calculatedFrom( """ ++ [128512]%N ++ runes_of_ascii """ )
+    int64 Foo//x
+,
+char[ 65535 ] Foo // trailing space 
+@lengthOf( BodyLength )
+, @lengthOf(charz) //
+trueish // trailing space 
+charz
+, } packet msg_type
+    {u32
+Foo `line1
+line2` , T
+{
+pack ,  char[]
+    int , zchar[ 1 ]
+    _x @lengthOf( Pad) `it's` , }  ,
+msg_type ,
+    falsey lengthOf ,
+    char[
+    4294967296 ]
+string_
+@lengthOf(Pad) , @calculatedFrom( ""\n"" ) //
+o @lengthOf( options1	) , }
+    // c
+    packet u	{
+}
+")).
+Eval vm_compute in ("<<<M25>>>" ++ check (runes_of_ascii "root
+    packet u128{pack @lengthOf(MetaDataX)	`say ""hi""` ,repeat lengthOf {
+    int8 o
+    `crlf
+line` ,
+    } // " ++ [27880; 37322]%N ++ runes_of_ascii "
+, @lengthOf( tag
+    ) char[
+    007
+    ] chars @lengthOf(MetaDataX ) , u
+    @calculatedFrom( ""\n"" )// `tick` ""quote"" 'q'
+, @lengthOf(  Z9_
+    ) u32 A
+@lengthOf( charz ) ,u16 float@lengthOf(
+    As ) ,A u128
+// packet A { u8 x, }
+// packet A { u8 x, }
+`a\` /// triple
+, x_y_z@lengthOf(stringy  )
+`a\` ,
+}
+    root packet x_y_z
+    {@lengthOf( crc	)  i64 pack // " ++ [27880; 37322]%N ++ runes_of_ascii "
+@lengthOf(
+    float ) `say ""hi""`
+, }MetaData  uint8x{ }
+    root packet  trueish {  zchar[ 4294967296  ] float@lengthOf( matchKey
+    )/// triple
+,@lengthOf( o
+    ) repeat float rootA
+    , @tag(  7	) int64 // " ++ [128512]%N ++ runes_of_ascii " emoji
+falsey@lengthOf( options1 ) ,Logon// @lengthOf(
+{ tag
+@lengthOf(a1 ) , asx `// not a comment` , float32 zchar
+    ,Pad @calculatedFrom( ""`tick`"" )// @lengthOf(
+,
+    } , // trailing space 
+@lengthOf( int
+    ) repeat // a // b
+rootA// trailing space 
+u128 ,
+    repeat char[] leftPad , int8 _x // a // b
+,
+    Packet `` ,
+    // " ++ [27880; 37322]%N ++ runes_of_ascii "
+    match
+len	as uint8x { ""a	b""
+:
+lengthOf
+,""\" ++ [233]%N ++ runes_of_ascii """ :pack
+[ // a // b
+""x y""  ,""packet""
+, """ ++ [128512]%N ++ runes_of_ascii """
+    // " ++ [27880; 37322]%N ++ runes_of_ascii "
+    ,	""\" ++ [233]%N ++ runes_of_ascii """ , 255 , ""{,}""
+    ]:
+lengthOf
+    , [ ""abc"", 00  ,
+    ""a\\"" , ""// no comment""
+, 00 , 007, 0 , ""packet""]: Packet  }
+    // " ++ [27880; 37322]%N ++ runes_of_ascii "
+    , @leftPad()
+    u i64_ ,
+}
+packet trueish { }
+")).
+Eval vm_compute in ("<<<M4255>>>" ++ check (runes_of_ascii "root packet As {
+    @calculatedFrom(""{,}"")
+    // packet A { u8 x, }
+    // @lengthOf(
+    Header {
+        repeat uint8 uint8x `// not a comment`,
     },
-    char Header `u8 x,`,
-}//	t
+    @tag(3)
+    repeat i64 i64_ `it's`,
+    @lengthOf(i8i8)
+    repeat i64 metadata,
+    repeat i8 chars `a\`,
+    repeat zchar[4294967296] x_y_z,
+    @leftPad('0')
+    char[42] options1,
+    repeat o,
+}
+
+root packet float {
+}
+
+packet Packet {
+    uint8x roots,
+    zchar[0123456789] msg_type `a\`,
+    @calculatedFrom(""" ++ [233]%N ++ runes_of_ascii "t" ++ [233]%N ++ runes_of_ascii """)
+    //
+    // trailing space 
+    repeat Packet {
+        repeat int64 T,
+        repeat zchar[1] falsey `it's`,
+        match leftPad as f32a {
+            // " ++ [128512]%N ++ runes_of_ascii " emoji
+            ""a\""b"" : MetaDataX,
+            [65535] : rootA,
+        },
+    },
+    @tag(007)
+    repeat char[4294967296] Z9_,
+    string Packet @calculatedFrom(""CRC32"") `u8 x,`,
+}
+
+root packet x {
+    pack tag ``,// `tick` ""quote"" 'q'
+}
+
+packet Z9_ {
+    char[] BodyLength,
+    zchar @lengthOf(x) `" ++ [28040; 24687; 31867; 22411]%N ++ runes_of_ascii "`,
+    uint8 float,
+    i64 u8x,
+    @lengthOf(leftPad)
+    //
+    int @lengthOf(lengthOf),
+    zchar {
+        zchar[0] Z9_,
+    },
+    float `crlf
+    line`,
+    repeat Z9_ {
+        repeat options1,
+        i32 As,
+        string stringy @lengthOf(leftPad) `" ++ [28040; 24687; 31867; 22411]%N ++ runes_of_ascii "`,
+    },
+    char[10] x,
+    int,
+}// c")).
+Eval vm_compute in ("<<<M3920>>>" ++ check (runes_of_ascii "options {
+    asx = true;
+    matchKey = ' ';
+    Z9_ = int8
+    BodyLength = char[]
+}
+
+MetaData calculatedFrom {
+    float32 tag,
+    char[] Header,
+    float64 charz,
+    falsey Z9_,
+    string A,
+    char[65535] leftPad,
+}
+
+packet BodyLength {
+    i16 Foo,
+    @tag(65535)
+    @lengthOf(lengthOf)
+    @tag(007)
+    x @calculatedFrom(""packet"") `u8 x,`,
+    Logon @calculatedFrom(""1"") `two words`,
+}
+
+MetaData options1 {
+}
+
+packet Packet {
+    pack,
+    repeat char[] o,
+    @lengthOf(uint8x)
+    string_ @calculatedFrom(""a\""b""),
+    @tag(0)
+    u16 repeatCount `
+        `,
+    string Packet,
+    @tag(0123456789)
+    match x as zchar {
+        42 : msg_type,
+        [3, ""{,}""] : u,
+        //
+        4294967296 : repeatCount,
+        [
+            ""a\\"", ""`tick`"", ""// no comment"", 3, """",
+            ""a\\""
+        ] : i64_,
+        ""`tick`"" : zchar,
+        [""// no comment""] : MetaDataX,
+    },
+    Foo @lengthOf(A),
+    char[65535] Pad `it's`,
+    match matchKey as x {
+        [
+            """ ++ [128512]%N ++ runes_of_ascii """, ""\" ++ [233]%N ++ runes_of_ascii """, 0123456789, ""CRC32"", ""`tick`"",
+            ""a\""b"", ""a	b""
+        ] : stringy,
+    },
+    // " ++ [128512]%N ++ runes_of_ascii " emoji
+    //	t
+    repeat uint16 Logon,
+}")).
+Eval vm_compute in ("<<<M922>>>" ++ check (runes_of_ascii "root packet o {	@leftPad
+// " ++ [128512]%N ++ runes_of_ascii " emoji
+//x
+( '0' ) u16 Pad , }  packet string_ { match o as
+    // c
+    chars{ [ 3 , """ ++ [128512]%N ++ runes_of_ascii """ // trailing space 
+] : _x  , }
+,
+char[]
+    rootA @lengthOf( f32a ) `it's` , @leftPad (
+// " ++ [128512]%N ++ runes_of_ascii " emoji
+// a // b
+) // packet A { u8 x, }
+repeat metadata//x
+,@calculatedFrom(	""it's""
+// trailing space 
+// `tick` ""quote"" 'q'
+)zchar[
+    // trailing space 
+    3 ]i8i8 @lengthOf(	options1)`line1
+line2`
+    , }
+root packet	metadata{
+    match MetaDataX as falsey{ 42 :
+Header ""1"":Z9_
+    , } ,
+    As { uint8
+// `tick` ""quote"" 'q'
+// a // b
+pack
+    `" ++ [28040; 24687; 31867; 22411]%N ++ runes_of_ascii "` ,	char[
+    // " ++ [27880; 37322]%N ++ runes_of_ascii "
+    4294967296
+]stringy@calculatedFrom(
+""`tick`""
+)
+    ,  i16//x
+rootA @lengthOf(  Foo )`u8 x,` //
+,
+//
+//	t
+}, @leftPad (
+    ) match charz
+as f32a { [ ""\n"" , 0123456789] :	x_y_z, """ ++ [28040; 24687]%N ++ runes_of_ascii """
+    //
+    : string_ }, @lengthOf( Packet )  match
+Packet as
+asx { [ // a // b
+42
+,
+""\" ++ [233]%N ++ runes_of_ascii """ ] : lengthOf  ,65535:falsey } , body leftPad
+    ,
+char[
+0 ]
+o @calculatedFrom(
+    // " ++ [27880; 37322]%N ++ runes_of_ascii "
+    ""a\""b""
+) `it's` , @rightPad ( ' ')char[ 65535 /// triple
+] a1`crlf
+line` , T @lengthOf(	pack
+)
+    `" ++ [28040; 24687; 31867; 22411]%N ++ runes_of_ascii "` ,
+}
+")).
+Eval vm_compute in ("<<<M365>>>" ++ check (runes_of_ascii "
+packet
+    trueish
+    // @lengthOf(
+    {
+    char[ 7
+]chars @calculatedFrom( """ ++ [128512]%N ++ runes_of_ascii """) , char[] uint8x@calculatedFrom( ""`tick`"" )// c
+`
+` ,  int16 // a // b
+metadata @calculatedFrom( """ ++ [128512]%N ++ runes_of_ascii """// @lengthOf(
+) `doc`, pack @lengthOf( stringy	) , u8
+float @lengthOf( leftPad ) , @lengthOf(
+chars ) f32a
+    trueish, repeat
+    zchar[ //	t
+4294967296 ]
+u  , @leftPad(
+    //
+    ' ' // trailing space 
+)@lengthOf( leftPad ) @tag(
+    7 ) repeat string	u128
+,
+    }
+    packet Header { u64 leftPad
+,	@lengthOf( u128	) repeat uint32
+T
+,@tag( 4294967296
+)repeat uint32
+    x_y_z ``
+    , T	,
+@tag( 1 ) zchar[7]	Packet@lengthOf( f32a  )
+// @lengthOf(
+//x
+, // trailing space 
+float32
+    lengthOf
+, // packet A { u8 x, }
+i32 // " ++ [128512]%N ++ runes_of_ascii " emoji
+calculatedFrom `crlf
+line` ,@tag(0123456789	)
+@tag( 1// trailing space 
+)
+//
+// `tick` ""quote"" 'q'
+@calculatedFrom( """ ++ [128512]%N ++ runes_of_ascii """ ) float32
+lengthOf@calculatedFrom( ""\n"" )
+    `" ++ [233]%N ++ runes_of_ascii "`
+, zchar[ 007 ] zchar @calculatedFrom(
+// a // b
+// packet A { u8 x, }
+""abc""	) `" ++ [28040; 24687; 31867; 22411]%N ++ runes_of_ascii "` /// triple
+,
+int32
+    roots
+,
+}
+")).
+Eval vm_compute in ("<<<M3723>>>" ++ check (runes_of_ascii "packet Packet {
+    u128 @calculatedFrom(""// no comment""),
+    zchar[255] repeatCount @lengthOf(Z9_) `doc`,
+    repeat matchKey {
+        char[10] msg_type @calculatedFrom(""a\\""),
+        zchar[255] o @calculatedFrom(""CRC32""),
+        repeat zchar[00] Header `it's`,
+        repeat asx {
+            BodyLength @lengthOf(matchKey) `{ , }`,
+            match metadata as a1 {
+                255 : calculatedFrom,
+                7 : u8x,
+                // @lengthOf(
+            },
+            char[007] float,
+            match charz as u8x {
+                ""a\""b"" : Logon,
+            },
+        },
+    },
+    repeat Foo `crlf
+        line`,
+    @tag(10)
+    rootA charz,
+    int @lengthOf(a1),
+}
+
+MetaData lengthOf {
+    zchar[0] uint8x,
+}
+
+packet len {
+}// @lengthOf(
+
+packet u {
+    match f32a as BodyLength {
+        0 : float,
+    },
+}
+
+MetaData leftPad {
+    u32 f32a `doc`,
+    zchar[255] i64_,
+    char[] zchar,
+    // `tick` ""quote"" 'q'
+    T i64_ `" ++ [233]%N ++ runes_of_ascii "`,
+}")).
+Eval vm_compute in ("<<<M4198>>>" ++ check (runes_of_ascii "packet Packet {
+    match a1 as calculatedFrom {
+        // `tick` ""quote"" 'q'
+        00 : falsey,
+        """ ++ [233]%N ++ runes_of_ascii "t" ++ [233]%N ++ runes_of_ascii """ : string_,
+        [00] : o,
+        ""it's"" : u,
+        //	t
+        10 : BodyLength,
+        ""1"" : BodyLength,
+    },
+}
+
+root packet calculatedFrom {
+    repeat uint64 int `line1
+    line2`,
+    string rootA ``,
+    @lengthOf(i64_)
+    leftPad @calculatedFrom(""\" ++ [233]%N ++ runes_of_ascii """) `line1
+    line2`,
+    uint8 x_y_z `" ++ [28040; 24687; 31867; 22411]%N ++ runes_of_ascii "`,
+}
 
 options {
 }
 
-packet As {
-    zchar[10] roots,
-    char[7] calculatedFrom @lengthOf(body),
-    char stringy @lengthOf(metadata),
-    Pad u128,
-    @calculatedFrom(""it's"")
-    Z9_,
-    match falsey as MetaDataX {
-        4294967296 : float,
-        //x
-        3 : Pad,
-        1 : T,
-    },
-    @tag(3)
-    char[] A @calculatedFrom(""it's""),
-    o tag,
-    @lengthOf(x)
-    zchar[4294967296] rootA `
-        `,
+MetaData crc {
+    pack asx `" ++ [233]%N ++ runes_of_ascii "`,
 }
 
-root packet Logon {
-    repeat _x {
-        leftPad `crlf
-                line`,
+packet rootA {
+    @lengthOf(x_y_z)
+    repeat T Pad,
+    string len,
+    match float as matchKey {
+        ""a\""b"" : x,
+        007 : calculatedFrom,
+        255 : crc,
     },
-    repeat i8 Packet,
-    MetaDataX `// not a comment`,
-    asx `two words`,
-    repeat lengthOf tag,
-    @calculatedFrom(""CRC32"")
-    // @lengthOf(
-    match repeatCount as BodyLength {
-        """ ++ [128512]%N ++ runes_of_ascii """ : len,
-        [
-            255, 0123456789, 7, 42, ""a\\"",
-            ""CRC32""
-        ] : repeatCount,
-    },
-    i64_ msg_type `crlf
-        line`,
-}
-
-packet repeatCount {
-    @calculatedFrom(""a\""b"")
-    match a1 as matchKey {
-        00 : options1,
-        4294967296 : x_y_z,
-        [3, 0123456789, ""a	b""] : i64_,
-        0 : leftPad,
-        ""`tick`"" : int,
-        [""" ++ [28040; 24687]%N ++ runes_of_ascii """] : Z9_,
-    },
-}")).
-Eval vm_compute in ("<<<M4355>>>" ++ check (runes_of_ascii "  MetaData  roots
-	{
-//
-    // " ++ [27880; 37322]%N ++ runes_of_ascii "
-    char[  //x
-00 ] i8i8  // @lengthOf(
-	,
-
-    uint32
-
-    metadata`tab	here`  // a // b
-	  ,
-}
-options  {
-
-Header
-/// triple
-    // a // b
-  =	true
-metadata = false  Logon  //x
-
-  = 42
-    ; 
-T=
-    // c
-	  '\x00'
-    Header	=// packet A { u8 x, }
-  ""\" ++ [233]%N ++ runes_of_ascii """  }
-    root  // trailing space 
-      packet 	 // c
-uint8x {
-	char[]	// @lengthOf(
-A
-
-    `" ++ [233]%N ++ runes_of_ascii "`
-	,	@tag(65535) uint32 
-i8i8 , @rightPad 
-(  '0'  )zchar[
-    // c
-      // " ++ [27880; 37322]%N ++ runes_of_ascii "
-0123456789 ] leftPad , 
-float32  leftPad  ,
-
-@tag(
-        // a // b
-	// `tick` ""quote"" 'q'
-      42 
-)
-
-    @leftPad ( )
-	/// triple
-    @tag(0  ) string
-f32a
-    ,@tag(
-    3
-    )
-
-char[
-
-42
-]
-MetaDataX
-, 
-string  repeatCount
-
-@lengthOf( 
-Foo
-)  `tab	here`  ,	@lengthOf( A
-
-    )  repeat
-    roots
-    {
-repeat len  stringy  `it's` ,
-A {
-	zchar[42
-] u128
-
-@calculatedFrom(	""CRC32""	)	, 
-},	char[] u128 , 	 // " ++ [128512]%N ++ runes_of_ascii " emoji
-  	},@lengthOf(  Z9_  )
-	u
-	, 
-	    // c
-    // " ++ [128512]%N ++ runes_of_ascii " emoji
-  }  MetaData 
-
-/// triple
-      //
-len
-    {float64 u8x  ,char[]
-    //
-Header
-    , 
-char[ 
-65535
-]
-
-    chars 
-`{ , }`
-,}
-MetaData
-
-Pad{ 
-roots
-a1
-
-, i64 // `tick` ""quote"" 'q'
-  u128 ,char[
-    255	] rootA
-    , u16
-packetx ,
-	i32
-
-    MetaDataX
-    ,u8	stringy
-	,
-
-    }
-")).
-Eval vm_compute in ("<<<M4309>>>" ++ check (runes_of_ascii "packet options1 {
-    /// triple
-    string falsey `doc`,
-    float BodyLength,
-    @tag(65535)
-    Logon @calculatedFrom(""a	b""),
-    repeat matchKey _x `u8 x,`,// `tick` ""quote"" 'q'
-    repeat tag {
-        repeat u8 trueish `a\`,
-        char[] u8x @calculatedFrom(""it's""),
-    },
-    match i64_ as BodyLength {
-        """ ++ [28040; 24687]%N ++ runes_of_ascii """ : T,
-        [""packet""] : x_y_z,
-        ""a\""b"" : A,
-        65535 : asx,
-        [0123456789, 0, 0123456789, ""\n""] : charz,
-        //
-        [
-            255, 10, 1, 10, ""{,}"",
-            ""a\\"", ""\" ++ [233]%N ++ runes_of_ascii """
-        ] : metadata,
-    },
-    repeat string x_y_z,
-    //
-    /// triple
-    match i8i8 as len {
-        ""\n"" : u8x,
-        0123456789 : int,
-        10 : roots,
-    },
-    rootA,
-    @tag(3)
-    rootA @lengthOf(f32a),
-}
-
-packet options1 {
-    @calculatedFrom(""" ++ [128512]%N ++ runes_of_ascii """)
-    i8i8 @lengthOf(Logon),
-    // @lengthOf(
-    // `tick` ""quote"" 'q'
-    float32 chars `tab	here`,
-    @leftPad('0')
-    @tag(3)
-    @calculatedFrom("""")
-    matchKey @calculatedFrom(""" ++ [233]%N ++ runes_of_ascii "t" ++ [233]%N ++ runes_of_ascii """),
-    repeat uint16 u ``,
-    @rightPad()
-    rootA,
-    @leftPad('0')
-    // @lengthOf(
-    _x Z9_,
-    char[0123456789] packetx `crlf
-        line`,
-}")).
-Eval vm_compute in ("<<<M4368>>>" ++ check (runes_of_ascii "packet i8i8 {
-    @lengthOf(body)
-    @lengthOf(T)
-    calculatedFrom @calculatedFrom(""""),
-    uint32 x `crlf
-    line`,
-    uint64 string_ `{ , }`,
-    i64 _x @calculatedFrom(""a	b"") `doc`,
-    @lengthOf(len)
-    asx `doc`,
-    charz `two words`,
-}
-
-packet u {
-    @rightPad()
-    repeat u128 u8x,// trailing space 
-    float64 stringy @calculatedFrom(""" ++ [128512]%N ++ runes_of_ascii """) `crlf
-    line`,
-    @rightPad()
-    @tag(10)
-    repeat options1 `crlf
-    line`,
-    zchar[0] i8i8,
-    int16 matchKey @calculatedFrom(""CRC32""),
-}
-
-packet string_ {
-    zchar @calculatedFrom(""packet""),
-    repeat asx chars `tab	here`,
-}
-
-packet falsey {
-    body BodyLength `two words`,
-    match Z9_ as lengthOf {
-        4294967296 : roots,
-        // " ++ [27880; 37322]%N ++ runes_of_ascii "
-    },
-    char[3] asx `crlf
-    line`,
-}
-
-root packet float {
-    repeat i8i8,
-    @lengthOf(options1)
-    roots roots,
-    repeat zchar[1] pack,
-    i64_,
-    falsey ``,
-    match options1 as x_y_z {
-        0 : int,
-    },
-    zchar[007] A @calculatedFrom(""a	b""),
-    trueish {
-        repeat char[] i8i8 `doc`,
-    },
-    i8i8 `
-    `,
-    uint8 roots `two words`,
-}")).
-Eval vm_compute in ("<<<M210>>>" ++ check (runes_of_ascii "packet chars
-    {
-int32 trueish ,match Pad
-as repeatCount { [0] :// " ++ [27880; 37322]%N ++ runes_of_ascii "
-Pad
-    , /// triple
-3
-: Foo , ""abc""
-    :
-i64_ //	t
-, [255
-    ,	3 ]
-    :
-Packet ,[
-0123456789 // @lengthOf(
-,""// no comment"" ]
-: Packet , }
-    , // c
-match  a1 as u {[// `tick` ""quote"" 'q'
-""abc""
-, """ ++ [233]%N ++ runes_of_ascii "t" ++ [233]%N ++ runes_of_ascii """
-, """" ,  0
-    ,
-    //	t
-    255 ]
-:u
-    //	t
-    ,
-    } ,@tag(  10
-    ) match a1
-    as a1
-{
-    [42
-    ]//
-:packetx ,
-    } ,@lengthOf(As ) repeat	char[0123456789] repeatCount`tab	here` ,string o `crlf
-line` ,
-//x
-// a // b
-As
-    @lengthOf(//x
-i8i8 )
-    , string repeatCount @lengthOf( u128 ) ,
-    //
-    @tag( 00 ) repeat pack Logon , }	root packet Foo {@tag( 1)char[ // packet A { u8 x, }
-3
-]
-i64_ ,
-f32
-// packet A { u8 x, }
-// " ++ [27880; 37322]%N ++ runes_of_ascii "
-charz , // `tick` ""quote"" 'q'
-i8 zchar
-    @lengthOf(// `tick` ""quote"" 'q'
-MetaDataX ) /// triple
-,@tag( 007 )u8 _x ,@tag(  255 ) msg_type@calculatedFrom(""`tick`"") `doc` ,  @calculatedFrom( """ ++ [233]%N ++ runes_of_ascii "t" ++ [233]%N ++ runes_of_ascii """ ) match len as /// triple
-As {""// no comment"" : falsey ,
-    }  , } MetaData leftPad{ x i8i8 , } //")).
-Eval vm_compute in ("<<<M3523>>>" ++ check (runes_of_ascii "options {
-    StringPrefixLenType = u32;
-    ArrayPrefixLenType = u8;
-    FixedStringPadFromLeft = false;
-}
-packet Logon {
-    i8 venue,
-    int16 f1,
-    zchar[8] Acct,
-    repeat InNote16 {
-        InQty73 {
-            float32 tag7,
-        },
-        f32 Acct,
-        zchar[5] sym,
-    },
-    uint16 Side2,
-    i32 lastPx,
-}
-packet Fill {
-    repeat InOrderid15 {
-        zchar[8] sym,
-        repeat char[2] OrderId,
-        repeat Logon,
-        InQty82 {
-            char[] Tail,
-            repeat Logon,
-            float64 price,
-            f64 Side2,
-        },
-        char[12] venue,
-        char[4] Px,
-    },
-    @rightPad('0') char[2] venue,
-    InPrice99 {
-        InAcct72 {
-            u8 pad0,
-        },
-        u32 OrderId,
-        Logon,
-    },
-}
-root packet Reject {
-    zchar[9] msgKind,
-    u32 venue,
-    u16 seqNo @lengthOf(Body),
-    match venue as Body {
-        57 : Fill,
-        8 : Logon,
-    },
-    u16 Tail @calculatedFrom(""CRC32""),
-}
-")).
-Eval vm_compute in ("<<<M4322>>>" ++ check (runes_of_ascii "packet 
-len  {
-	@tag(	007
-
-) @lengthOf( 
-calculatedFrom
-    // @lengthOf(
-	)
-@rightPad  (	'0' 
-)
-	roots
-asx
-	`
-`
-
-    ,
-@calculatedFrom(	""\" ++ [233]%N ++ runes_of_ascii """ )  
-  //
-		repeatCount
-@lengthOf(  matchKey
-
-    )  `it's`
-,
-
-    @lengthOf( 
-int)
-	match
-
-repeatCount
-
-    as rootA {	""packet"" 
-  // `tick` ""quote"" 'q'
-	// " ++ [27880; 37322]%N ++ runes_of_ascii "
-      :
-
-x_y_z
-    [
-	""1"" 
-
-    // `tick` ""quote"" 'q'
-,
-    65535,  3
-
-,""{,}""
-	, 	 //x
-
-""""  ] : 
-Logon 
-} 
-,
-
-    repeat 
-options1
-,  stringy
-    @lengthOf(
-	/// triple
-
-//	t
-  Header
-	) `
-`,
-repeat zchar[7] 
-msg_type
-`tab	here` ,	/// triple
-  zchar[
-
-10
-]u8x ,
-
-Pad
-
-    {  u8x
-
-    @calculatedFrom(""packet""
-    )	,
-
-} 
-, i8i8 { 
-repeat uint8x 
-lengthOf 
-,
-    match  Z9_	as	A 
-    // " ++ [128512]%N ++ runes_of_ascii " emoji
-
-{
-0	:trueish ,
-} , } ,match
-
-    u128 as 
-lengthOf//	t
-  { 
-3
-	://	t
-Pad  }
-	    // c
-		//	t
-    ,
-}
-
-    packet
-
-    calculatedFrom { 
-zchar[ // `tick` ""quote"" 'q'
-10	]	repeatCount ,
-    }
-")).
-Eval vm_compute in ("<<<M570>>>" ++ check (runes_of_ascii "MetaData charz{ }	packet
-tag // " ++ [27880; 37322]%N ++ runes_of_ascii "
-{
-    @tag( 00) i64 i8i8
-    `// not a comment`  , repeat options1, char[]  float , string a1
-,
-i8 asx ,
-// @lengthOf(
-// c
-match
-u as // " ++ [27880; 37322]%N ++ runes_of_ascii "
-BodyLength
-{ 65535: A ,} , } packet msg_type {@calculatedFrom( """ ++ [28040; 24687]%N ++ runes_of_ascii """ )Foo , @calculatedFrom( ""a\""b"" ) char[ 0123456789]
-    lengthOf	@lengthOf( a1	)	,  repeat stringy Header `
-`  , match	o as float{
-    ""// no comment"" : Pad
-, ""a\\"" :string_ , } , @leftPad
-// @lengthOf(
-//
-( ) match tag as body
-{0 : o,// " ++ [128512]%N ++ runes_of_ascii " emoji
-10 :
-charz ,7
-:u
-,
-    65535 // trailing space 
-:Header
-    ,
-    255 : body , }, } options //	t
-{ } root packet leftPad {
-@rightPad( ' ' ) i8 zchar ,
-    @calculatedFrom(
-""abc"" )metadata @lengthOf(
-    // c
-    packetx
-    ) , @tag(
-65535 ) string crc  @lengthOf(Z9_ /// triple
-) , @rightPad (' ') uint32 u8x
-// `tick` ""quote"" 'q'
-// c
-`say ""hi""`,@tag( //x
-255)
-    @lengthOf(x_y_z ) As , }")).
-Eval vm_compute in ("<<<M4279>>>" ++ check (runes_of_ascii "packet a1 {
-    @tag(00)
-    charz {
-        // @lengthOf(
-        char[007] i8i8 @calculatedFrom(""// no comment""),
-        float {
-            char[1] Packet @lengthOf(len) `crlf
-            line`,
-        },
-    },
-    @rightPad(' ')
-    match x_y_z as repeatCount {
-        // c
-        //	t
-        ""`tick`"" : pack,
-        ""`tick`"" : u,
-        ""abc"" : u128,
-        [""" ++ [233]%N ++ runes_of_ascii "t" ++ [233]%N ++ runes_of_ascii """, ""x y""] : float,
-        0123456789 : calculatedFrom,
-    },
-    repeat zchar[1] zchar,
-    char[255] matchKey,
-    repeat float {
-        match chars as asx {
-            [0, 0, """"] : i64_,
-            00 : BodyLength,
-            //
-            // " ++ [27880; 37322]%N ++ runes_of_ascii "
-            ""// no comment"" : a1,
-        },
-        repeat T i64_,
-        // packet A { u8 x, }
-        // c
-        repeat char[0] len,
-    },
-    zchar[42] uint8x @calculatedFrom(""// no comment""),
-}")).
-Eval vm_compute in ("<<<M679>>>" ++ check (runes_of_ascii "root packet
-body { @tag( 255) chars calculatedFrom ,
-    //	t
-    @rightPad ( '0' )
-    @calculatedFrom(
-    ""a	b"" // " ++ [128512]%N ++ runes_of_ascii " emoji
-) @rightPad ( )
-stringy @calculatedFrom( ""it's""  )// " ++ [128512]%N ++ runes_of_ascii " emoji
-, repeat string trueish /// triple
-,  @calculatedFrom(
-    // `tick` ""quote"" 'q'
-    """"
-    ) asx
-@lengthOf(	options1 ) `doc`  , u32 Logon ,float64// packet A { u8 x, }
-i64_
-    @lengthOf( metadata ) , @calculatedFrom( ""`tick`"") chars @lengthOf(len ) `line1
-line2`
-,f32a
-    /// triple
-    {match trueish
-as roots{ ""1"" :
-    body""// no comment"" : Packet,[ 42 , ""it's"" ,
-    0, // " ++ [128512]%N ++ runes_of_ascii " emoji
-""it's"" ] : charz,""a\""b"" : stringy,
-// a // b
-//x
-}
-    , } ,
-uint8x { zchar[ 10 ]
-    As ,}// trailing space 
-, @tag( 0123456789) @rightPad (
-    '0' ) @calculatedFrom("""") asx@lengthOf(	trueish ) ,} root
-packet trueish{ }
-")).
-Eval vm_compute in ("<<<M4188>>>" ++ check (runes_of_ascii "packet chars {
-}// c
-
-packet len {
-    repeat char[] Foo,
-    @rightPad('0')
-    zchar[007] a1 `say ""hi""`,
-    repeat BodyLength leftPad,
-}
-
-root packet u8x {
-    f64 lengthOf @calculatedFrom(""CRC32""),
-    string zchar @lengthOf(int) `crlf
-        line`,
-    int calculatedFrom,
-    @lengthOf(As)
-    match falsey as asx {
-        65535 : _x,
-        [1] : u,
-        007 : uint8x,
-        00 : f32a,
-        """ ++ [233]%N ++ runes_of_ascii "t" ++ [233]%N ++ runes_of_ascii """ : Packet,
-        [42, ""a\""b""] : len,
-    },
+    int32 float,
+    @leftPad(' ')
     @lengthOf(stringy)
-    @calculatedFrom(""1"")
-    repeat A {
-        char[] lengthOf `it's`,
-    },
-    _x `" ++ [28040; 24687; 31867; 22411]%N ++ runes_of_ascii "`,
-    @leftPad('0')
-    match Foo as crc {
-        10 : trueish,
-        42 : Pad,
-        [4294967296, ""// no comment"", ""{,}""] : float,
-    },
-    @lengthOf(u8x)
-    a1 @calculatedFrom(""\" ++ [233]%N ++ runes_of_ascii """),
-}")).
-Eval vm_compute in ("<<<M3823>>>" ++ check (runes_of_ascii "packet roots {
-    @calculatedFrom(""CRC32"")
-    @tag(42)
-    Z9_ leftPad `line1
-        line2`,
-    @lengthOf(string_)
-    @lengthOf(Packet)
-    @calculatedFrom(""// no comment"")
-    repeat chars len,
-    @tag(42)
-    @tag(3)
-    u8 u128 @lengthOf(A),
-    char T,
-    @lengthOf(charz)
-    // `tick` ""quote"" 'q'
-    zchar lengthOf,
-    repeat zchar[00] A,
-    char[4294967296] leftPad `u8 x,`,
-    @tag(4294967296)
-    @tag(007)
-    repeat char[65535] float `two words`,
-}
-
-packet crc {
-    msg_type @lengthOf(chars),
-    string chars @lengthOf(u128),
-    int64 Header,
-    match lengthOf as pack {
-        [255, ""packet""] : i64_,
+    @calculatedFrom(""`tick`"")
+    repeat float {
+        zchar[00] crc @calculatedFrom(""1"") `// not a comment`,
         //x
-        1 : u,
+        string stringy `doc`,
     },
-    trueish @lengthOf(packetx),
-    charz @lengthOf(packetx),
+    i16 asx `doc`,
+    // `tick` ""quote"" 'q'
 }")).
-Eval vm_compute in ("<<<M4239>>>" ++ check (runes_of_ascii "
-
-  MetaData
-o
-
-    {uint8 
-asx
-	,	// " ++ [27880; 37322]%N ++ runes_of_ascii "
-	} MetaData
-	_x
-    { A
-
-Z9_`a\`
-
-,}
-    packet string_	{
-	repeat
-
-    x_y_z f32a
-, charz 
-
-    //x
-	// " ++ [27880; 37322]%N ++ runes_of_ascii "
+Eval vm_compute in ("<<<M4367>>>" ++ check (runes_of_ascii "
+root packet
+	stringy
 {
-    msg_type@lengthOf(
-
-A
-    ),} , uint16 
-stringy, @calculatedFrom(
-
-""" ++ [233]%N ++ runes_of_ascii "t" ++ [233]%N ++ runes_of_ascii """ )
-leftPad
-msg_type  ,	@tag(
-	7 )
-@calculatedFrom(
-	//	t
-  """ ++ [28040; 24687]%N ++ runes_of_ascii """	)
-
-    i64_
-	,
-    repeat
-
-trueish
-
-    x 
-`doc` ,
-uint16
-	metadata 	 //	t
-@lengthOf(
-i8i8
-) `tab	here`
-
+    repeat u16
+falsey `
+`
     ,
+
+u16 
+Pad
+
+, @lengthOf(// packet A { u8 x, }
+  x )
+	Logon
+{ repeat
+
+    zchar[ 65535]
+
+Packet`it's`
+
+,},}
+
+packet	len
+{
+@leftPad
+	( )
+	repeat 
+metadata
+
+{ match	asx
+    as  asx{ ""a\\""	:
+	f32a  ,}
+,
+}  // " ++ [128512]%N ++ runes_of_ascii " emoji
+    ,	uint16	falsey, body	,
 
 repeat
+	// a // b
+	string lengthOf `say ""hi""`
+	,}
 
-tag
-    Logon, repeat repeatCount metadata ``// a // b
-,  // trailing space 
-	} packet roots
+    packet
+    i64_
+	{
 
-{repeat 
-x_y_z
-    { 
+x, @lengthOf(i64_
+)@tag(
+    7  // a // b
 
-// `tick` ""quote"" 'q'
+  ) 
+      // `tick` ""quote"" 'q'
+		@calculatedFrom(
+""""	)
 
-char[4294967296  ] stringy
+    repeat zchar[ 1 ] i8i8,
+i64
+	i64_
 
-    `line1
-line2`
-	,
-uint16 body
-	,
-} 
-,
-@leftPad(	' '
-    )
-MetaDataX
+    @calculatedFrom(
+""\" ++ [233]%N ++ runes_of_ascii """
 
-    stringy 
-, }
-")).
-Eval vm_compute in ("<<<M4320>>>" ++ check (runes_of_ascii "packet
-    rootA {	}  // " ++ [27880; 37322]%N ++ runes_of_ascii "
+    ) `line1
+line2` ,
+float//x
+	`tab	here`,
 
-  packet
-MetaDataX
-	    // packet A { u8 x, }
-
-  {  @leftPad 
-(
-	'0'
-
-)
-@calculatedFrom(
-
-    ""`tick`""
-
-    )
-
-pack
-@calculatedFrom(	""1"")
-
-,
-    f32a
-{
-	a1
-{ lengthOf
-
-{
-	repeat 
-uint8
-charz
-
-    `crlf
-line`
-
-,
-
-} ,
-    match
-    roots
-
-as
-
-    Packet {
-7 : Foo, ""\" ++ [233]%N ++ runes_of_ascii """ 
-
-    // c
-:	metadata ,
-
-    ""a	b""	://
-  trueish 
-
-    // @lengthOf(
-  //x
-
-  ,  0123456789 :
-Z9_  , 
-[  4294967296 ,
-""packet""
-
-    ,
-
-"""" /// triple
-,
-3
-
-    ,
-
-""" ++ [233]%N ++ runes_of_ascii "t" ++ [233]%N ++ runes_of_ascii """
-	]:	pack
-	10
-    :
-a1, } ,
-
-    u16  u128	// " ++ [128512]%N ++ runes_of_ascii " emoji
-		`" ++ [28040; 24687; 31867; 22411]%N ++ runes_of_ascii "` , }
-,  }  ,
-zchar[ 
-00 
-]
-    _x@calculatedFrom(  ""x y""
+    @calculatedFrom( """ ++ [128512]%N ++ runes_of_ascii """
 	)
+	char[]
+Logon// @lengthOf(
 
-`doc`	,
+	``  ,
 
+match leftPad	as	stringy
+    {0 : 
+float
+	,
+""\n""  : 	 // trailing space 
+Pad
+,}  , 
+i8i8
+    @lengthOf( roots )	,
+}  root packet  i8i8
+{
+tag
+
+@lengthOf(T
+    ) 
+`" ++ [28040; 24687; 31867; 22411]%N ++ runes_of_ascii "`// " ++ [128512]%N ++ runes_of_ascii " emoji
+  ,
+	} ")).
+Eval vm_compute in ("<<<M17>>>" ++ check (runes_of_ascii "  root
+//
+// `tick` ""quote"" 'q'
+packet lengthOf {repeat char[]asx`// not a comment` // trailing space 
+,	lengthOf{ string options1	, char[] A @calculatedFrom( ""\n"" )
+    ,	int16 trueish , },repeat  int16	stringy  , string Logon `{ , }`
+, @lengthOf(	metadata )
+match trueish	as
+    Foo { 00
+:
+T , 7
+: Z9_ , } ,
+string_ a1
+`" ++ [28040; 24687; 31867; 22411]%N ++ runes_of_ascii "`// packet A { u8 x, }
+, } packet zchar { @calculatedFrom(
+    ""x y"" //x
+) repeatCount`
+`, match
+    //
+    stringy as u {255 // `tick` ""quote"" 'q'
+:charz } , zchar[ 0123456789]
+    // a // b
+    Z9_
+@lengthOf(
+    crc )
+`it's` , @leftPad
+    ( '\x00' )zchar[
+    0 ]rootA @calculatedFrom( ""CRC32"" ) , @lengthOf( leftPad )
+    // packet A { u8 x, }
+    Foo @calculatedFrom(
+""{,}"" ) ,
+uint32 Foo
+`// not a comment` , f32 float , repeat matchKey ,
+Logon @lengthOf(
+    rootA
+) `" ++ [28040; 24687; 31867; 22411]%N ++ runes_of_ascii "` ,
     }
+")).
+Eval vm_compute in ("<<<M1025>>>" ++ check (runes_of_ascii "  packet f32a {
+    @leftPad
+(/// triple
+)
+i32 repeatCount
+@calculatedFrom(
+    ""`tick`""	) `two words`
+,	repeat
+i32
+int
+    //x
+    ,
+char[ 00 ] Header
+    , repeat
+    zchar[ 10 ]	a1
+    ,string_ @calculatedFrom( ""// no comment""
+    ) , @leftPad
+    ( // `tick` ""quote"" 'q'
+)
+// trailing space 
+// c
+@tag(00	) @lengthOf( // packet A { u8 x, }
+string_
+)
+repeat
+    zchar[ 3]
+    x_y_z , repeat
+uint16 rootA`line1
+line2`, u8 roots @lengthOf( tag ) ,T@lengthOf(	A) `// not a comment`	,// a // b
+} MetaData
+    rootA//	t
+{
+pack
+    calculatedFrom , trueish packetx `` , Packet
+msg_type `it's` //x
+,	u64 repeatCount
+, uint8
+Z9_
+    `" ++ [28040; 24687; 31867; 22411]%N ++ runes_of_ascii "` , } options { chars  = u8 falsey
+=
+'\x00' MetaDataX
+=
+    char[] ; repeatCount =char[]
+} MetaData string_
+{ // @lengthOf(
+string chars , } 	 ")).
+Eval vm_compute in ("<<<M678>>>" ++ check (runes_of_ascii "packet
+    msg_type {  @rightPad
+( '\x00')	calculatedFrom
+chars,
+} packet
+// " ++ [128512]%N ++ runes_of_ascii " emoji
+// " ++ [27880; 37322]%N ++ runes_of_ascii "
+string_ { }
+MetaData o{ zchar[ 65535
+] a1
+, } root
+packet Foo {	f32a{ // " ++ [128512]%N ++ runes_of_ascii " emoji
+match len
+as
+Packet { [ 3
+    ] : body ,
+7: o  [ 00 ,
+    0 ,""x y"" // trailing space 
+,
+    // trailing space 
+    42 ]: u , """ ++ [28040; 24687]%N ++ runes_of_ascii """
+: Pad , }, i64
+A, string u8x, match stringy as As {65535 : i8i8 // " ++ [27880; 37322]%N ++ runes_of_ascii "
+, //x
+""CRC32"":u8x [ ""a\""b""
+    ,// @lengthOf(
+7 , ""\n""
+    , ""{,}"" , 0
+,
+// `tick` ""quote"" 'q'
+// a // b
+42, ""a\""b"" ]
+: MetaDataX // trailing space 
+,[ ""abc""] :
+    falsey
+, // @lengthOf(
+[ ""`tick`"" ]
+: calculatedFrom //
+, }
+,
+    } //x
+, } // " ++ [128512]%N ++ runes_of_ascii " emoji
+options
+{body = ""CRC32""
+    ; body =
+""a\""b""	u128
+= true ;
+    BodyLength  = // " ++ [128512]%N ++ runes_of_ascii " emoji
+10;
+leftPad=
+false ;}
+
+")).
+Eval vm_compute in ("<<<M3539>>>" ++ check (runes_of_ascii "options {
+    StringPrefixLenType = u16;
+    ArrayPrefixLenType = u32;
+    FixedStringPadFromLeft = false;
+    FixedStringPadChar = '0';
+}
+packet Logout {
+    f64 f1,
+    i16 Note,
+    @rightPad('\x00') char[11] Flags,
+}
+packet Cancel {
+    float64 msgKind,
+}
+packet Reject {
+    InQty43 {
+        float32 sym,
+        char[10] Tail,
+        uint8 venue,
+        uint16 f1,
+        char[9] Acct,
+    },
+}
+packet Trade {
+    char[] x,
+    zchar[6] Note,
+    repeat Reject,
+}
+root packet Order {
+    Cancel,
+    Logout,
+    u64 Acct,
+    u32 OrderId,
+    match OrderId as Body {
+        [127, 70] : Reject,
+        177 : Trade,
+        58 : Logout,
+        75 : Cancel,
+    },
+    u32 Tail @calculatedFrom(""CR\
+C32""),
+}
+")).
+Eval vm_compute in ("<<<M942>>>" ++ check (runes_of_ascii "MetaData
+    body
+    {
+i64 msg_type ,
+// trailing space 
+/// triple
+} packet MetaDataX {	zchar[65535 ] As @lengthOf(
+    matchKey ) `{ , }`,}packet Pad { match
+//x
+// c
+chars as // @lengthOf(
+matchKey
+    //	t
+    { 0123456789 :MetaDataX , 0123456789
+    :
+i8i8 ,[
+"""",
+    // packet A { u8 x, }
+    1 ,  ""x y"" /// triple
+, ""// no comment"" ,
+3
+,
+//x
+// c
+""// no comment"" ,  ""a\""b"" ,
+    65535 ]
+    :  As ,
+    //x
+    [
+255
+, ""1"" , 0, ""packet""]
+: float , ""{,}"" : stringy , ""`tick`"" :
+    Logon,
+} ,
+    repeat
+    //	t
+    Z9_ _x , @leftPad('\x00' )
+/// triple
+// " ++ [27880; 37322]%N ++ runes_of_ascii "
+uint8 charz`// not a comment`
+, //x
+@tag(// " ++ [27880; 37322]%N ++ runes_of_ascii "
+0123456789
+) @rightPad ( '\x00' )
+@tag(
+1 )	stringy	,
+    }")).
+Eval vm_compute in ("<<<M710>>>" ++ check (runes_of_ascii "packet
+leftPad { char[
+42  ]falsey , }
+    options{ x_y_z
+= ""a	b"" ; zchar= zchar[ 255]
+    options1 = false ;
+    BodyLength =
+'0'
+    ; i8i8 =char[] ; }packet crc
+{
+char[ 007 // `tick` ""quote"" 'q'
+] stringy @calculatedFrom(""a\""b""
+    )`say ""hi""`
+, match  tag as matchKey{ [ """ ++ [128512]%N ++ runes_of_ascii """ ,
+    3	,// " ++ [27880; 37322]%N ++ runes_of_ascii "
+""" ++ [28040; 24687]%N ++ runes_of_ascii """] :
+    trueish,} , uint32 i64_
+    ,@rightPad (' '
+) @calculatedFrom( ""{,}"" )	@calculatedFrom(
+""a	b"" ) Foo tag `" ++ [233]%N ++ runes_of_ascii "`
+    , repeat zchar[
+    // " ++ [27880; 37322]%N ++ runes_of_ascii "
+    0 ] Logon
+`say ""hi""`
+,i8i8
+u8x ,zchar @calculatedFrom(
+    ""\" ++ [233]%N ++ runes_of_ascii """ ),	} options {_x =
+    false ;
+    Foo =  ""abc"" o
+    = uint32  ; f32a
+= """ ++ [28040; 24687]%N ++ runes_of_ascii """
+charz // " ++ [27880; 37322]%N ++ runes_of_ascii "
+='\x00' ;
+    } MetaData x_y_z
+    {// c
+}")).
+Eval vm_compute in ("<<<M349>>>" ++ check (runes_of_ascii "root
+packet packetx{ match x
+as repeatCount // " ++ [128512]%N ++ runes_of_ascii " emoji
+{ 65535 //x
+: i8i8 10 :
+x_y_z 42// @lengthOf(
+: packetx 0123456789
+:metadata[ ""\" ++ [233]%N ++ runes_of_ascii """]
+    :
+    x_y_z
+,
+""a\\""
+:i8i8
+, } , stringy { // c
+stringy
+    i64_ , repeat Header As
+    `two words` ,
+    } , repeat char[ 007// `tick` ""quote"" 'q'
+] u8x
+    `line1
+line2` , @lengthOf( charz )
+    // packet A { u8 x, }
+    @leftPad (
+'0' ) int16 BodyLength ,  repeat
+float32 repeatCount	, match trueish as MetaDataX
+    { ""a	b""
+    // a // b
+    :
+    x	,	}
+,char[ 0 ] matchKey @lengthOf( float ) , @lengthOf( i64_)@lengthOf( repeatCount
+) // " ++ [27880; 37322]%N ++ runes_of_ascii "
+@lengthOf(
+float )f32 Z9_ , }")).
+Eval vm_compute in ("<<<M1278>>>" ++ check (runes_of_ascii "MetaData
+o
+{
+uint8 asx ,// " ++ [27880; 37322]%N ++ runes_of_ascii "
+}
+MetaData _x { A Z9_
+`a\` , } packet string_
+{ repeat
+x_y_z f32a,
+charz
+//x
+// " ++ [27880; 37322]%N ++ runes_of_ascii "
+{ msg_type @lengthOf( A
+)
+    ,} ,
+uint16
+stringy, @calculatedFrom(
+""" ++ [233]%N ++ runes_of_ascii "t" ++ [233]%N ++ runes_of_ascii """)	leftPad msg_type , @tag(
+7 ) @calculatedFrom(
+    //	t
+    """ ++ [28040; 24687]%N ++ runes_of_ascii """)
+    i64_ , repeat trueish
+x	`doc`  ,uint16 metadata//	t
+@lengthOf(
+i8i8 )`tab	here` ,repeat tag Logon , repeat repeatCount metadata
+`` // a // b
+, // trailing space 
+} packet roots
+{
+repeat x_y_z  {
+    // `tick` ""quote"" 'q'
+    char[4294967296] stringy`line1
+line2`
+,uint16
+    body
+    , }, @leftPad (' ')
+    MetaDataX
+stringy
+,}
+")).
+Eval vm_compute in ("<<<M3802>>>" ++ check (runes_of_ascii "
+// a // b
+  MetaData crc  {
+uint8x
+len ,
+
+string 
+BodyLength , asx body 
+      // packet A { u8 x, }
+		`" ++ [233]%N ++ runes_of_ascii "`,  calculatedFrom i8i8	,}
 
 packet
-pack	{ }
-")).
-Eval vm_compute in ("<<<M113>>>" ++ check (runes_of_ascii "root packet Pad{ @lengthOf( _x) As i8i8 ,f32 lengthOf
-`a\`	,
-    // " ++ [27880; 37322]%N ++ runes_of_ascii "
-    repeat len  `tab	here` , zchar[ //	t
-3 ] body, int8 matchKey
-    `crlf
-line` ,}
-    MetaData metadata { matchKey  packetx
-    ,
-}
-    packet options1	{ repeat charz `line1
-line2`, int8 options1
-    // " ++ [27880; 37322]%N ++ runes_of_ascii "
-    ,
-    repeat	roots
+Header
+	{ @tag(
+    3 ) int64
+
+    uint8x
+,repeat 
+lengthOf
+	{
+
+match 
+x  as body
 {
-repeat	float32	x_y_z `say ""hi""`,	}
-// c
-// a // b
-,int64 options1 // `tick` ""quote"" 'q'
-`line1
-line2` , match  falsey
-as falsey
-    {
-    [ ""// no comment""// packet A { u8 x, }
-, """"]:_x  , 42 : // @lengthOf(
-crc ""packet"" : repeatCount, """ ++ [128512]%N ++ runes_of_ascii """
-    //	t
-    :u8x , ""abc""
-: falsey, } , repeat	float64
-x_y_z `a\`,
-}")).
-Eval vm_compute in ("<<<M897>>>" ++ check (runes_of_ascii "packet
+""" ++ [128512]%N ++ runes_of_ascii """  //	t
+	  :trueish
+	3 :  MetaDataX
+
+    , [ ""it's""
+,""""	] :
+o
+, ""CRC32"":
+    i8i8	,
+    }// trailing space 
+    ,
+} , i64
+lengthOf
+    `u8 x,`,} 
+packet pack{ @rightPad  // trailing space 
+	(
+) @tag(
+
+    255 )
+
+repeat
+string 
 leftPad
-    {
-    @tag(
-    00
-) As chars  , u8
-i8i8
-    , match o
-as chars
-{	[""{,}""
+
+`crlf
+line` , 
+}
+
+    options {
+}
+
+    packet Packet {
+
+lengthOf 
 ,
-    ""1"" , ""abc""
+
+} ")).
+Eval vm_compute in ("<<<M769>>>" ++ check (runes_of_ascii "packet// packet A { u8 x, }
+MetaDataX{ zchar[ 00
+] // `tick` ""quote"" 'q'
+_x `" ++ [233]%N ++ runes_of_ascii "`	, @lengthOf(
+T )  uint32
+    asx @lengthOf(
+x ) ,
+float32 tag @lengthOf( Z9_), match uint8x
+as options1 {
+""" ++ [28040; 24687]%N ++ runes_of_ascii """ // " ++ [27880; 37322]%N ++ runes_of_ascii "
+:
+    len , 4294967296 :
+As , [  0
+, """ ++ [233]%N ++ runes_of_ascii "t" ++ [233]%N ++ runes_of_ascii """  ,00
+,""" ++ [233]%N ++ runes_of_ascii "t" ++ [233]%N ++ runes_of_ascii """ , ""\n""  ,
+0 , 0123456789
+    //
+    ] :
+int } , zchar[
+007 ]
+    rootA @lengthOf( asx ) ,char[] Packet@calculatedFrom( ""it's"" ) ,
+@lengthOf(
+x )
+    @tag( 3 )
+@tag(7 )
+    repeat zchar[//
+007 ]
+    As// " ++ [27880; 37322]%N ++ runes_of_ascii "
+`" ++ [28040; 24687; 31867; 22411]%N ++ runes_of_ascii "` , @lengthOf(
+packetx  ) Pad
+    // @lengthOf(
+    ,}
+")).
+Eval vm_compute in ("<<<M3469>>>" ++ check (runes_of_ascii "packet A // c1
+{ // c2
+u8 // c3
+a
+    // c4
 ,
-42 ,
-    // " ++ [27880; 37322]%N ++ runes_of_ascii "
-    ""packet"" ,00 ,
-"""",//
-""a\""b""
-    ]: uint8x ,
-""// no comment"" : calculatedFrom  ,  0 : int""packet"" :u
-//	t
-//x
-, /// triple
-""CRC32""
-    : As , 0 : len
-    , } ,char[ 0123456789] float
-@calculatedFrom(""CRC32"" ) ,
-    Pad chars`two words`
-,  string
-    stringy
-@calculatedFrom(""""// packet A { u8 x, }
-)
-,  @calculatedFrom(""`tick`""
-)// packet A { u8 x, }
-roots @lengthOf(
-    MetaDataX  )
-    ,
-@tag(	4294967296)u32
+    // c5
+}
+    // c6
+packet
+    // c7
+B { // c9
+u16 // c10
+b , // c12
+}
+    // c13
+root
+    // c14
+packet // c15
+P { u8 // c18
+K1 // c19a
+  // c19b
+, // c20a
+  // c20b
+u8 K2 , // c23a
+  // c23b
+match K1
+    // c25
+as
+    // c26
+M1 // c27
+{ 1 // c29
+: // c30
+A // c31
+, // c32a
+  // c32b
+} // c33
+, // c34
+match // c35
+K2 // c36a
+  // c36b
+as
+    // c37
+M2 // c38
+{ // c39
+1 : // c41a
+  // c41b
+B // c42a
+  // c42b
+, // c43
+} // c44a
+  // c44b
+, } ")).
+Eval vm_compute in ("<<<M899>>>" ++ check (runes_of_ascii "packet u8x
+    { @lengthOf( trueish )
+// trailing space 
+/// triple
+@lengthOf( matchKey ) repeat
+Packet{ packetx @calculatedFrom(
+    ""a\""b"" )  `` ,
+}  ,@calculatedFrom(
+""1"" ) f32
+o
+    ,char[ // a // b
+0123456789 // `tick` ""quote"" 'q'
+] crc
+,char[]charz
+    ,rootA
 A
-    `` , Foo ,
-    f32
-matchKey , }
-")).
-Eval vm_compute in ("<<<M761>>>" ++ check (runes_of_ascii "packet packetx { @lengthOf( charz)lengthOf { u64	x_y_z @calculatedFrom( ""abc""
+    ,repeat char[]  _x,
+@calculatedFrom(""{,}""
 )
-`tab	here` , }, char zchar @lengthOf(lengthOf
-    ) `two words`, chars Logon
-//
-// @lengthOf(
-`line1
-line2` ,match int	as u128 // " ++ [128512]%N ++ runes_of_ascii " emoji
-{
-1 : asx ,// a // b
-""CRC32"" : Header ,	}
-,
-string_
-,Header{ match u128 as
-    len {  [ 255
-    ,10
-    ,255 ,
-255 , 00 , ""x y""
-, // @lengthOf(
-""" ++ [28040; 24687]%N ++ runes_of_ascii """ ]: len ,[ ""{,}"", 1 ] : _x""1"": o ,
-    ""{,}""
-    //
-    : x ,
-007
-    : stringy
-    ,} // a // b
-, repeat f32a	{ stringy `
-` ,
-    } ,zchar[ 65535 ] charz ,
-    o  , // a // b
-} ,}
+leftPad , char[ 65535 ] rootA// c
+,//	t
+@lengthOf( charz // c
+)@lengthOf(u8x
+) @lengthOf(float
+    )
+repeat zchar[// trailing space 
+0123456789 ] u8x ,	}
 ")).
-Eval vm_compute in ("<<<M1040>>>" ++ check (runes_of_ascii "
-options	{ zchar =	false ; Packet = ""`tick`"" ;	a1 =
-    // c
-    char[]
-    ; Packet =0123456789 ; }	packet msg_type  { /// triple
-@lengthOf( u128
-) body	@lengthOf( len ) ,@calculatedFrom( ""CRC32""
-)
-zchar[
-    /// triple
-    007 ]// packet A { u8 x, }
-repeatCount@lengthOf(
-Foo)  `it's` , i16 leftPad @calculatedFrom(""a\\"")
-`u8 x,` ,
-    /// triple
-    float ,
-@lengthOf(a1 )As @lengthOf( rootA ) `doc` // @lengthOf(
-, // " ++ [128512]%N ++ runes_of_ascii " emoji
-f32 o
-@calculatedFrom(""a	b"" )  `tab	here` ,
-    } options
-// @lengthOf(
-// " ++ [27880; 37322]%N ++ runes_of_ascii "
-{ } options { }
-
-")).
-Eval vm_compute in ("<<<M3803>>>" ++ check (runes_of_ascii "packet leftPad {
-    @calculatedFrom(""\" ++ [233]%N ++ runes_of_ascii """)
-    @rightPad('0')
-    @lengthOf(asx)
-    BodyLength trueish `it's`,
-    @leftPad('\x00')
-    A i8i8 `
-        `,
-    @tag(0)
-    matchKey {
-        int16 falsey `line1
-                line2`,/// triple
-    },// " ++ [128512]%N ++ runes_of_ascii " emoji
-    match tag as falsey {
-        [""packet""] : i64_,
-        3 : leftPad,
-    },
-    @calculatedFrom(""// no comment"")
-    string a1,
-    @leftPad('\x00')
-    @calculatedFrom(""" ++ [28040; 24687]%N ++ runes_of_ascii """)
-    @calculatedFrom(""`tick`"")
-    repeat chars As,
-}")).
-Eval vm_compute in ("<<<M4377>>>" ++ check (runes_of_ascii "
-options{
-    }packet
-calculatedFrom {}packet
-    T
-{@tag(  42
-
-    ) match
-len
-	as  matchKey  {007 : 
-o  ,
-
-""a\""b""  :
-calculatedFrom
-    [
-
-00//
-    , 42,
-	0 , 00, 7
-    ]	:trueish
-    ,	""packet"" 	 // @lengthOf(
-
-:MetaDataX,
-}
-
-,  int @calculatedFrom( ""a\""b"" )
-
-    `" ++ [233]%N ++ runes_of_ascii "` , @lengthOf(
-zchar ) @tag( 65535 ) repeat string // c
-		uint8x ,
-    } 
-MetaData
-
-    leftPad 
-    // `tick` ""quote"" 'q'
-    { 
-}
-    //
-    packet
-	tag { repeat Z9_
-
-    x_y_z `a\` ,
-
-}")).
 Eval vm_compute in ("<<<M898>>>" ++ check (runes_of_ascii "
 packet Packet { int16 f32a,	match //	t
 string_ as u8x { """ ++ [128512]%N ++ runes_of_ascii """ :
@@ -1434,1060 +1241,1066 @@ o
 ,@lengthOf( uint8x  )// `tick` ""quote"" 'q'
 repeat
 zchar[ 7 ]  uint8x , }")).
-Eval vm_compute in ("<<<M3570>>>" ++ check (runes_of_ascii "options	{ LittleEndian = false 
-;	StringPrefixLenType
-=  u32
-; ArrayPrefixLenType =
-
-u16 
-;} 
-packet
-
-Party	{ 
-@leftPad
-(  '0'
-
-    )
-    char[ 12	]Ref
-    ,
-    repeat 
-char[
-    6
-
-    ]
-x
-
-    ,
-    }  packet
-    Logon
-
-    {	uint32 clOrdID , Party
-
-,} root
-
-    packet Ack
-{ 
-zchar[ 2 ]
-f1
-, u32 
-seqNo
-,
-u32 
-Side2
-	@lengthOf( Body
-) ,
-
-    match 
-seqNo
-	as
-	Body{
-    43  :
-	Logon
-    ,
-
-    93	:
-
-Party ,} , 
-}
-
+Eval vm_compute in ("<<<M598>>>" ++ check (runes_of_ascii "// a // b
+MetaData	options1 { //
+Z9_
+    calculatedFrom , } root packet Z9_{ int falsey `tab	here` ,	@lengthOf( a1
+) @tag(
+    007
+    // trailing space 
+    ) match trueish
+as string_ {""a\""b""
+:	Pad , ""`tick`"":a1
+, [ ""// no comment"" ,7,0 , // " ++ [128512]%N ++ runes_of_ascii " emoji
+0 , ""a\""b""
+, 10
+    , 4294967296 , 007 ] : packetx , [ 00 , // trailing space 
+""a\\""] :// c
+a1 ""CRC32""
+:
+    //
+    string_,
+    3
+    :uint8x,} , } packet //
+x_y_z{
+char//
+Logon , }
 ")).
-Eval vm_compute in ("<<<M3788>>>" ++ check (runes_of_ascii "
-options
+Eval vm_compute in ("<<<M770>>>" ++ check (runes_of_ascii "
+packet
+T //x
+{ matchKey Header
+,
+//
+/// triple
+zchar[
+3 ]
+a1,
+// packet A { u8 x, }
+// trailing space 
+} MetaData
+matchKey
+{
+    // " ++ [27880; 37322]%N ++ runes_of_ascii "
+    f64 f32a`two words`
+, zchar[
+    255
+    ] Logon
+// `tick` ""quote"" 'q'
+// packet A { u8 x, }
+`{ , }` , zchar[ // `tick` ""quote"" 'q'
+1 ] calculatedFrom , msg_type
+// `tick` ""quote"" 'q'
+// a // b
+MetaDataX
+`{ , }` //x
+, a1 lengthOf `say ""hi""` ,
+    }root
+    packet pack{x	int , }
+")).
+Eval vm_compute in ("<<<M762>>>" ++ check (runes_of_ascii "options {} packet u {u @lengthOf( // @lengthOf(
+crc ),  @tag( 65535
+) T @calculatedFrom(
+""// no comment"" ) , // packet A { u8 x, }
+pack MetaDataX
+,	repeat float , @lengthOf( chars
+)//	t
+char[] charz	,
+    match // packet A { u8 x, }
+T	as Z9_{//
+7 :
+    asx }
+,zchar[ 65535 ] a1 @lengthOf( T	)
+    ,	match A as tag
+{ ""x y"" :
+repeatCount 0
+:
+u8x ,
+[ ""a	b"" ] :matchKey ,
+    42: repeatCount , } , }
+")).
+Eval vm_compute in ("<<<M3796>>>" ++ check (runes_of_ascii "  // trailing space 
+	packet
+	i64_ {  uint8  body  ,
+@calculatedFrom(
+	""\n"" 
+)	repeat
 
-{len
-    =255
-tag 
-=
-    """ ++ [233]%N ++ runes_of_ascii "t" ++ [233]%N ++ runes_of_ascii """ }
+    BodyLength { repeat 
+        // trailing space 
+    // packet A { u8 x, }
+crc
+len `" ++ [233]%N ++ runes_of_ascii "` ,As
+    ,	repeat
+    char[]
 
-packet 
-packetx{
-} 
-options
-{ 
-repeatCount = '\x00'
-    ;
-	x=  4294967296
-len=
-    false
+Header, } 
+, match T
 
-    ;A
-
-    = false;Packet =
-""""// " ++ [27880; 37322]%N ++ runes_of_ascii "
-		;}
-MetaData x
+as 
+T
 
     {
-        //
-	  // `tick` ""quote"" 'q'
-uint32 roots
 
-,
-    lengthOf	o `
-` ,	u32 x_y_z
-`line1
-line2`
-
-    , 
-int64  msg_type 
-// a // b
-  //
-    `crlf
-line` ,
-string repeatCount
-
-`line1
-line2`
-
-    , u128
-stringy,
-	} ")).
-Eval vm_compute in ("<<<M3446>>>" ++ check (runes_of_ascii "// top
-options // c0a
-  // c0b
+    3:repeatCount
+	, } ,	match  tag
+as 
+pack
 {
-    // c1
-LittleEndian =
-    // c3
-true // c4
-; }
-    // c6
-packet
-    // c7
-B // c8
-{ // c9a
-  // c9b
-u8 // c10
-a // c11a
-  // c11b
-, // c12
-string s // c14
-, // c15a
-  // c15b
-} // c16a
-  // c16b
-root
-    // c17
-packet // c18a
-  // c18b
-P { u16 // c21
-L // c22a
-  // c22b
-@lengthOf( B ) // c25a
-  // c25b
-,
-    // c26
-B // c27a
-  // c27b
-, // c28
-u8 // c29
-t , // c31
-} ")).
-Eval vm_compute in ("<<<M1288>>>" ++ check (runes_of_ascii "packet
-int // @lengthOf(
-{ string crc `{ , }` , repeat	uint8
-roots `doc` ,u32 Logon `
-` ,	}packet
-// " ++ [27880; 37322]%N ++ runes_of_ascii "
-//
-x_y_z
-{metadata {Pad @calculatedFrom( ""it's""
-) `crlf
-line` , char[]asx
-    , Z9_ @lengthOf( x
-    ) `two words` , },tag
-    x_y_z `it's` , @calculatedFrom( ""a	b"" )
-@calculatedFrom(""{,}""
-    ) @rightPad
-    // trailing space 
-    (
-    '\x00'
-    )
-int64 packetx //x
-`` , }")).
-Eval vm_compute in ("<<<M991>>>" ++ check (runes_of_ascii "packet // packet A { u8 x, }
-Pad { repeat u8 f32a ,
-string_ { char[ 42 ] // a // b
-As
-    , repeat uint16 asx , repeat
-    zchar[ 65535 ]
-    a1
-    , }
-, }
-// trailing space 
-// @lengthOf(
-MetaData
-    rootA { }MetaData _x {
-    char[]
-body ,
-f64 // c
-len ,rootA
-uint8x
-    `
-` ,
-    float f32a , }options{  metadata = char ;
-    //x
-    msg_type = zchar[ 0 ] ;}
-// " ++ [27880; 37322]%N ++ runes_of_ascii "
-")).
-Eval vm_compute in ("<<<M1168>>>" ++ check (runes_of_ascii "
-packet
-    // `tick` ""quote"" 'q'
-    asx	{	@lengthOf( calculatedFrom
+
+""a	b""	:	//
+	string_ ,
+
+} ,zchar[
+
+    10] a1  ``	,
+    @tag( 
+3 //	t
 )
-x float `line1
-line2` ,
-    // " ++ [128512]%N ++ runes_of_ascii " emoji
-    Logon @calculatedFrom(
-/// triple
-// @lengthOf(
-""it's"" )`say ""hi""` ,u16 crc , f64// `tick` ""quote"" 'q'
-a1 ,} packet
-matchKey { @calculatedFrom( """ ++ [28040; 24687]%N ++ runes_of_ascii """ )  asx {
-Header packetx// c
-`doc` , } , repeat Header _x // packet A { u8 x, }
-, Logon , }")).
-Eval vm_compute in ("<<<M709>>>" ++ check (runes_of_ascii "packet
-    calculatedFrom
-    {int16 asx @calculatedFrom( """"
-    )
-    , @calculatedFrom( ""1"" )
-i8i8 { i32 stringy	@calculatedFrom(
-    ""a	b""
-    )`say ""hi""`
-, i32//x
-uint8x
-, match Header as	Logon {
-00 :
-    A ,} ,match
-    // `tick` ""quote"" 'q'
-    repeatCount
-as Packet { ""packet""
-:
-    // trailing space 
-    MetaDataX """ ++ [28040; 24687]%N ++ runes_of_ascii """: u,} ,},	}
-")).
-Eval vm_compute in ("<<<M3608>>>" ++ check (runes_of_ascii "packet Foo {
-    @lengthOf(metadata)
-    // " ++ [128512]%N ++ runes_of_ascii " emoji
-    repeat len {
-        matchKey lengthOf,
-        repeat body {
-            int8 Header,
-            zchar @lengthOf(x),
-        },
+
+string int
+, }")).
+Eval vm_compute in ("<<<M4082>>>" ++ check (runes_of_ascii "MetaData o {
+    u32 string_,
+    char[] a1 `crlf
+    line`,
+    int8 options1,
+}
+
+packet Foo {
+    @lengthOf(matchKey)
+    f32 f32a,
+    @tag(0)
+    // @lengthOf(
+    match MetaDataX as trueish {
+        //	t
+        255 : T,
+        4294967296 : pack,
+        3 : falsey,
+        ""1"" : uint8x,
+        7 : u128,
+        4294967296 : MetaDataX,
     },
-    char[4294967296] _x,
-}
-
-MetaData T {
-    repeatCount trueish,
-    char[65535] Pad `" ++ [233]%N ++ runes_of_ascii "`,
-}
-
-options {
-}
-
-options {
-    u8x = ""1"";
+    i32 roots,
 }")).
-Eval vm_compute in ("<<<M842>>>" ++ check (runes_of_ascii "// @lengthOf(
+Eval vm_compute in ("<<<M4102>>>" ++ check (runes_of_ascii "options  {
+	roots
+=
+
+3 leftPad
+	    /// triple
+	// c
+=
+
+string
+
+;
+
+    packetx
+=	false 
+;
+zchar
+
+=
+	true
+
+options1
+
+    =
+    false ;
+    } MetaData
+string_  {
+
+    i32 x_y_z,
+    char[
+    4294967296
+
+    ] zchar  `two words` ,  // c
+  	char[
+	42
+
+]
+metadata,}
 packet
-    _x {  @calculatedFrom( ""a	b"" )
-T rootA ``, u64 body	@calculatedFrom(""a	b""  )
-    //x
-    `two words` ,	zchar[
-7 ] MetaDataX @calculatedFrom( ""it's"")`say ""hi""` /// triple
-,
-// trailing space 
-// `tick` ""quote"" 'q'
-f32a {repeat zchar[
-    00
-    ]
-roots`" ++ [233]%N ++ runes_of_ascii "` ,}	, } // `tick` ""quote"" 'q'")).
-Eval vm_compute in ("<<<M1054>>>" ++ check (runes_of_ascii "root packet f32a
+_x
 {
-u16 trueish
-, o { o
-    @calculatedFrom( """" ), roots@calculatedFrom(  ""1"" ) , // a // b
-float32
-    T , } , @calculatedFrom(""// no comment"") As , @leftPad(
-'\x00'
-)@lengthOf( uint8x ) @lengthOf( lengthOf ) repeatCount@calculatedFrom(
-    """ ++ [128512]%N ++ runes_of_ascii """ )
-, @calculatedFrom(
-""1""  )repeat
-x
+	int8 rootA 
+`doc`,
+
+} options
+    {  lengthOf =	""// no comment"" } ")).
+Eval vm_compute in ("<<<M541>>>" ++ check (runes_of_ascii "//x
+packet Header{// " ++ [27880; 37322]%N ++ runes_of_ascii "
+i64 trueish ,	string lengthOf ,match u128 as charz {// packet A { u8 x, }
+""" ++ [128512]%N ++ runes_of_ascii """	: body
+    } ,trueish `` // packet A { u8 x, }
 ,
+    tag
+int
+, Foo { //
+match asx  as options1  {65535 :
+x_y_z // `tick` ""quote"" 'q'
+,} ,	zchar trueish, } ,string Foo
+    ,@leftPad
+(
+)
+As @calculatedFrom(""" ++ [28040; 24687]%N ++ runes_of_ascii """ )
+,
+}
+MetaData u8x {} 	 ")).
+Eval vm_compute in ("<<<M3991>>>" ++ check (runes_of_ascii "options
+{}  packet 
+repeatCount {
+	Foo// " ++ [128512]%N ++ runes_of_ascii " emoji
+  T
+
+    , _x
+	`// not a comment`
+
+    ,@calculatedFrom( //	t
+  ""x y""  )repeat	float32
+uint8x  `doc`,
+    char
+msg_type
+@lengthOf( 	 // " ++ [27880; 37322]%N ++ runes_of_ascii "
+    stringy) ,
+    @lengthOf( int
+
+    )
+
+    repeat
+float
+`two words`
+
+    ,
+} MetaData u8x
+
+    // " ++ [27880; 37322]%N ++ runes_of_ascii "
+  	// a // b
+{  }")).
+Eval vm_compute in ("<<<M141>>>" ++ check (runes_of_ascii "packet u  { @calculatedFrom( ""CRC32"" ) repeat zchar[ 1] x_y_z`crlf
+line` ,
+@leftPad
+    ( // `tick` ""quote"" 'q'
+)
+zchar[ // `tick` ""quote"" 'q'
+255
+]crc// c
+, } root
+    packet MetaDataX{@tag( 255 )
+rootA//x
+, }packet f32a {@lengthOf( packetx	) uint8 Z9_ @calculatedFrom(
+""CRC32"" )
+    /// triple
+    ,
+    }
+")).
+Eval vm_compute in ("<<<M212>>>" ++ check (runes_of_ascii "/// triple
+packet A
+{@calculatedFrom(""a\""b"" ) Logon`u8 x,` , metadata BodyLength
+, } // trailing space 
+packet	As{ @rightPad (
+) repeat
+uint8
+chars , i64
+/// triple
+// a // b
+zchar `say ""hi""` ,@rightPad
+( '\x00' )
+@leftPad (
+'0')@lengthOf( int
+) char[
+    65535  ] rootA , } root packet trueish
+{}
+")).
+Eval vm_compute in ("<<<M265>>>" ++ check (runes_of_ascii "MetaData x { char[]crc , char[7 ]float, u64 //	t
+f32a	,}
+    packet
+int
+    {Pad/// triple
+@lengthOf(Pad )
+`{ , }`, }
+    MetaData
+/// triple
+//
+T {
+A
+i8i8`it's` ,
+u8x options1 , roots zchar // `tick` ""quote"" 'q'
+,	int16 u8x , char[] a1
+`say ""hi""`, char
+//	t
+/// triple
+Pad ,
+    } // a // b")).
+Eval vm_compute in ("<<<M1575>>>" ++ check (runes_of_ascii "root packet Foo // " ++ [128512]%N ++ runes_of_ascii " emoji
+{ } options {
+    // a // b
+    tag // `tick` ""quote"" 'q'
+= //	t
+""""
+    ; u8x = zchar[0  ] }
+MetaData
+    int {zchar[ 10]
+lengthOf	`` , i64 u8x`// not a comment` ,MetaDataX pack// `tick` ""quote"" 'q'
+`crlf
+line`
+, , Logon charz `crlf
+line`
+    ,
+    // a // b
+    }
+")).
+Eval vm_compute in ("<<<M1441>>>" ++ check (runes_of_ascii "root packet Foo // " ++ [128512]%N ++ runes_of_ascii " emoji
+{ } options tag
+    // a // b
+    { // `tick` ""quote"" 'q'
+= //	t
+""""
+    ; u8x = zchar[0  ] }
+MetaData
+    int {zchar[ 10]
+lengthOf	`` , i64 u8x`// not a comment` ,MetaDataX pack// `tick` ""quote"" 'q'
+`crlf
+line`
+, Logon charz `crlf
+line`
+    ,
+    // a // b
+    }
+")).
+Eval vm_compute in ("<<<M1601>>>" ++ check (runes_of_ascii "root packet Foo // " ++ [128512]%N ++ runes_of_ascii " emoji
+{ } options {
+    // a // b
+    tag // `tick` ""quote"" 'q'
+= //	t
+""""
+    ; u8x = zchar[0  ] }
+MetaData
+    int {zchar[ 10]
+lengthOf	`` , i64 u8x`// not a comment` ,MetaDataX pack// `tick` ""quote"" 'q'
+`crlf
+line`
+, Logon charz `crlf
+line`
+    ,
+    // a // b
+    =
+")).
+Eval vm_compute in ("<<<M1529>>>" ++ check (runes_of_ascii "root packet Foo // " ++ [128512]%N ++ runes_of_ascii " emoji
+{ } options {
+    // a // b
+    tag // `tick` ""quote"" 'q'
+= //	t
+""""
+    ; u8x = zchar[0  ] }
+MetaData
+    int {zchar[ 10]
+lengthOf	 , i64 u8x`// not a comment` ,MetaDataX pack// `tick` ""quote"" 'q'
+`crlf
+line`
+, Logon charz `crlf
+line`
+    ,
+    // a // b
+    }
+")).
+Eval vm_compute in ("<<<M625>>>" ++ check (runes_of_ascii "
+options { u128 = u32 ;Z9_
+=""`tick`"" trueish= ""`tick`"" ;
+    // @lengthOf(
+    tag
+    = '0'
+} options
+    { metadata = ""a	b"" ;
+packetx =//	t
+'\x00' // " ++ [128512]%N ++ runes_of_ascii " emoji
+} options {charz
+    = 65535}
+options {
+    msg_type // trailing space 
+=zchar[
+10 ] ;
+    asx	= false
+    tag
+= char[] ;
 }")).
-Eval vm_compute in ("<<<M1420>>>" ++ check (runes_of_ascii "root packet Foo Foo // " ++ [128512]%N ++ runes_of_ascii " emoji
-{ } options {
-    // a // b
-    tag // `tick` ""quote"" 'q'
-= //	t
-""""
-    ; u8x = zchar[0  ] }
-MetaData
-    int {zchar[ 10]
-lengthOf	`` , i64 u8x`// not a comment` ,MetaDataX pack// `tick` ""quote"" 'q'
-`crlf
-line`
-, Logon charz `crlf
-line`
-    ,
-    // a // b
+Eval vm_compute in ("<<<M4175>>>" ++ check (runes_of_ascii "  options{ 
+LittleEndian 
+= true
+	;
+	ArrayPrefixLenType
+    =
+	u64;  FixedStringPadFromLeft
+=	false
+    ;}packet Quote {
     }
+root
+
+packet Order
+
+    { i64  Side2 ,Quote	,u32 Px
+	,	match Px  as Body{[ 119 ,
+
+147  ]
+: Quote
+,
+	}, u16
+Flags @calculatedFrom(
+""CRC32"" ), }
+
 ")).
-Eval vm_compute in ("<<<M1440>>>" ++ check (runes_of_ascii "root packet Foo // " ++ [128512]%N ++ runes_of_ascii " emoji
-{ } options { {
-    // a // b
-    tag // `tick` ""quote"" 'q'
-= //	t
-""""
-    ; u8x = zchar[0  ] }
-MetaData
-    int {zchar[ 10]
-lengthOf	`` , i64 u8x`// not a comment` ,MetaDataX pack// `tick` ""quote"" 'q'
-`crlf
-line`
-, Logon charz `crlf
-line`
-    ,
-    // a // b
-    }
-")).
-Eval vm_compute in ("<<<M1620>>>" ++ check (runes_of_ascii "root packet Foo // " ++ [128512]%N ++ runes_of_ascii " emoji
-{ } options {
-    // a // b
-    tag // `tick` ""quote"" 'q'
-= //	t
-""""
-    ; u8x = zchar[0  ] }
-MetaData
-    int {zchar[ 10]
-lengthOf	`` , i64 u8x`// not a comment` ,MetaDataX pack// `tick` ""quote"" 'q'
-`crlf
-line`
-, Logon charz `crlf
-line`
-    ,
-    // a // b
-    ?}
-")).
-Eval vm_compute in ("<<<M1551>>>" ++ check (runes_of_ascii "root packet Foo // " ++ [128512]%N ++ runes_of_ascii " emoji
-{ } options {
-    // a // b
-    tag // `tick` ""quote"" 'q'
-= //	t
-""""
-    ; u8x = zchar[0  ] }
-MetaData
-    int {zchar[ 10]
-lengthOf	`` , i64 u8x, `// not a comment`MetaDataX pack// `tick` ""quote"" 'q'
-`crlf
-line`
-, Logon charz `crlf
-line`
-    ,
-    // a // b
-    }
-")).
-Eval vm_compute in ("<<<M1624>>>" ++ check (runes_of_ascii "root packet Foo // " ++ [128512]%N ++ runes_of_ascii " emoji
-{ } options {
-    // a // b
-    tag // `tick` ""quote"" 'q'
-= //	t
-""""
-    ; u8x = zchar[0  ] }
-MetaData
-    " ++ [21517; 23383]%N ++ runes_of_ascii " {zchar[ 10]
-lengthOf	`` , i64 u8x`// not a comment` ,MetaDataX pack// `tick` ""quote"" 'q'
-`crlf
-line`
-, Logon charz `crlf
-line`
-    ,
-    // a // b
-    }
-")).
-Eval vm_compute in ("<<<M3483>>>" ++ check (runes_of_ascii "packet A {
+Eval vm_compute in ("<<<M3489>>>" ++ check (runes_of_ascii "packet MDSnapshotZZ {
     u8 a,
 }
-packet B {
+packet OrderACK {
     u16 b,
 }
-packet C {
-    u32 c,
+packet HTTPServerInfo {
+    string s,
 }
-root packet M {
-    u16 Kc, u16 Kb, u16 Ka,
-    match Kc as X {
-        9 : A,
-        10 : B,
+root packet FIXMsg {
+    u8 KType,
+    MDSnapshotZZ,
+    repeat OrderACK,
+    match KType as Body {
+        1 : HTTPServerInfo,
+        2 : OrderACK,
     },
-    match Kb as Y {
-        2 : C,
-        1 : A,
-    },
-    match Ka as Z {
-        1 : B,
-    },
-    A, B, C,
 }
 ")).
-Eval vm_compute in ("<<<M559>>>" ++ check (runes_of_ascii "packet
-msg_type	{ charz
-`` , Logon @lengthOf( As
-    ) // " ++ [128512]%N ++ runes_of_ascii " emoji
-, zchar[ 10]  Packet ,@rightPad (
-' ' // " ++ [128512]%N ++ runes_of_ascii " emoji
-)
-repeat As{char[ 007]
-int@lengthOf( roots//	t
-),
-    int64
-u8x `" ++ [233]%N ++ runes_of_ascii "` ,zchar
-    // `tick` ""quote"" 'q'
-    @calculatedFrom( """ ++ [233]%N ++ runes_of_ascii "t" ++ [233]%N ++ runes_of_ascii """
-    ) , } // a // b
-,/// triple
-}
-")).
-Eval vm_compute in ("<<<M1113>>>" ++ check (runes_of_ascii "  packet
-i64_ {  @leftPad ( )
-char[]u8x//x
-, float
-`line1
-line2`, // " ++ [27880; 37322]%N ++ runes_of_ascii "
-@leftPad() match	roots  as charz {
-[// @lengthOf(
-""abc"" ] :	MetaDataX  ,
-    // trailing space 
-    42 :
-    u128 } , } MetaData
-    i8i8 {char[ 0 ]
-    // " ++ [128512]%N ++ runes_of_ascii " emoji
-    matchKey `it's`
-,
-    }
-")).
-Eval vm_compute in ("<<<M243>>>" ++ check (runes_of_ascii "packet leftPad{
-    trueish { char[] charz	@calculatedFrom(  ""\n"" )
-// @lengthOf(
-//x
-,
-    } , @rightPad
-    ( '0' ) @tag( 255 )len {
-    zchar[
-65535
-] f32a , }
-,f64
-    i8i8	`` , } options {chars = 00 Pad =
-    false // a // b
-stringy =
-string
-    }
-")).
-Eval vm_compute in ("<<<M4004>>>" ++ check (runes_of_ascii "MetaData i8i8 {
-    int8 charz `doc`,
-}
-
-packet Header {
-    repeat int32 lengthOf `line1
-    line2`,
-}
-
-options {
-    float = char[];
-}
-
-packet i8i8 {
-    uint8 u128 @lengthOf(repeatCount) `crlf
+Eval vm_compute in ("<<<M3923>>>" ++ check (runes_of_ascii "packet u {
+    @calculatedFrom(""CRC32"")
+    repeat zchar[1] x_y_z `crlf
     line`,
+    @leftPad()
+    zchar[255] crc,
 }
 
-options {
-    Packet = char[007]
+root packet MetaDataX {
+    @tag(255)
+    rootA,
+}
+
+packet f32a {
+    @lengthOf(packetx)
+    uint8 Z9_ @calculatedFrom(""CRC32""),
 }")).
-Eval vm_compute in ("<<<M1314>>>" ++ check (runes_of_ascii "// " ++ [27880; 37322]%N ++ runes_of_ascii "
-root packet rootA {  @calculatedFrom( ""\" ++ [233]%N ++ runes_of_ascii """
-) uint32 calculatedFrom ,
-    // trailing space 
-    }  MetaData
-stringy{ f32a charz ,// packet A { u8 x, }
-uint32 repeatCount
-    , i64_ u128 `say ""hi""`,
-    string calculatedFrom , }
-")).
-Eval vm_compute in ("<<<M2351>>>" ++ check (runes_of_ascii "MetaData Packet { }packet	asx  { @lengthOf( asx) falsey`crlf
-line`
-,
-    }
-    packet x	{uint32// @lengthOf(
-rootA	,u32 options1 `say ""hi""` , @tag( 7
-    )// packet A { u8 x, }
-msg_type @lengthOf( @lengthOf(
-stringy	)	, }
-
-")).
-Eval vm_compute in ("<<<M3882>>>" ++ check (runes_of_ascii "packet
-
-    zchar{ @rightPad 
-( )
-repeat
-
-char[]  leftPad	,  @calculatedFrom(	""{,}""
-	) u , i64_@calculatedFrom(
-""// no comment""
-    )
-	, 
-    // c
-	}
-
-    // packet A { u8 x, }
-
-// " ++ [128512]%N ++ runes_of_ascii " emoji
-    packet  lengthOf 
-{
-
-}
-")).
-Eval vm_compute in ("<<<M2221>>>" ++ check (runes_of_ascii "MetaData Packet { { }packet	asx  { @lengthOf( asx) falsey`crlf
-line`
-,
-    }
-    packet x	{uint32// @lengthOf(
-rootA	,u32 options1 `say ""hi""` , @tag( 7
-    )// packet A { u8 x, }
-msg_type @lengthOf(
-stringy	)	, }
-
-")).
-Eval vm_compute in ("<<<M2386>>>" ++ check (runes_of_ascii "MetaData Packet { }packet	asx  { @lengthOf( asx) falsey`crlf
-line`
-,
-    }
-    pac?ket x	{uint32// @lengthOf(
-rootA	,u32 options1 `say ""hi""` , @tag( 7
-    )// packet A { u8 x, }
-msg_type @lengthOf(
-stringy	)	, }
-
-")).
-Eval vm_compute in ("<<<M2342>>>" ++ check (runes_of_ascii "MetaData Packet { }packet	asx  { @lengthOf( asx) falsey`crlf
-line`
-,
-    }
-    packet x	{uint32// @lengthOf(
-rootA	,u32 options1 `say ""hi""` , @tag( 7
-    msg_type// packet A { u8 x, }
-) @lengthOf(
-stringy	)	, }
-
-")).
-Eval vm_compute in ("<<<M4073>>>" ++ check (runes_of_ascii "packet repeatCount {
-    @rightPad()
-    @rightPad('\x00')
-    matchKey @lengthOf(zchar),
-    match int as int {
-        00 : Header,
-    },
-    @leftPad('\x00')
-    // @lengthOf(
-    repeat o options1 `u8 x,`,
-}")).
-Eval vm_compute in ("<<<M3961>>>" ++ check (runes_of_ascii "
-packet As
-    {
-u128	MetaDataX,
-
-char[ 3
-
-    ]falsey , }
-options {falsey
-        /// triple
-	=	""it's""	;  }
-
-    MetaData
-a1 
-{
-    u8x
-
-    A
-
-    ,  matchKey
-_x  `" ++ [28040; 24687; 31867; 22411]%N ++ runes_of_ascii "`
-    ,
-    string  T
-	,
-}
-")).
-Eval vm_compute in ("<<<M221>>>" ++ check (runes_of_ascii "options{ len = // " ++ [27880; 37322]%N ++ runes_of_ascii "
-true
-    ;
-MetaDataX = zchar[ 00//
-] lengthOf =  '0'; Pad	=""packet""  ; x_y_z
-    // a // b
-    = ""a\""b""; } packet calculatedFrom{
-repeat
-matchKey // packet A { u8 x, }
-Foo
-,
-    }
-")).
-Eval vm_compute in ("<<<M3428>>>" ++ check (runes_of_ascii "packet Inner { u8 a
-    // c4
-,
-    // c5
-}
-    // c6
-root // c7a
-  // c7b
-packet // c8a
-  // c8b
-P // c9a
-  // c9b
-{
-    // c10
-repeat Inner items ,
-    // c14
-u8 // c15
-x
-    // c16
-, // c17
-} ")).
-Eval vm_compute in ("<<<M1352>>>" ++ check (runes_of_ascii "// packet A { u8 x, }
-MetaData T {
-rootA MetaDataX , rootA pack
-    // `tick` ""quote"" 'q'
-    ,
-    int8 zchar ,string trueish  `line1
-line2`	, u16 metadata `say ""hi""`
-, matchKey
-f32a ,  }
-")).
-Eval vm_compute in ("<<<M3674>>>" ++ check (runes_of_ascii "packet MetaDataX {
-    match Header as zchar {
-        0 : pack,
-        [42, 65535] : crc,
-    },// @lengthOf(
-    @tag(1)
-    @rightPad(' ')
-    int64 Foo,
-}// packet A { u8 x, }")).
-Eval vm_compute in ("<<<M605>>>" ++ check (runes_of_ascii "packet lengthOf { @leftPad
-('\x00'
-    ) char[
-4294967296]f32a , repeat char[] zchar ,
-_x,// " ++ [27880; 37322]%N ++ runes_of_ascii "
-leftPad zchar ,	A,	char[
-// `tick` ""quote"" 'q'
-// a // b
-3]
-u ,T `it's`	,}")).
-Eval vm_compute in ("<<<M693>>>" ++ check (runes_of_ascii "
-options
-    {a1
-=char[ 1]// " ++ [27880; 37322]%N ++ runes_of_ascii "
-; x=f64; Z9_ =
-//x
-//
-char[
-3 ]
-; Z9_= '\x00' x_y_z
-    = zchar[ 10 ]
-; }
-    packet x_y_z { chars trueish `it's`
-// " ++ [128512]%N ++ runes_of_ascii " emoji
-//x
-, }")).
-Eval vm_compute in ("<<<M553>>>" ++ check (runes_of_ascii "MetaData
-i64_ { float32 BodyLength
-    // a // b
-    , int8
-tag
-`two words` , roots
-a1 `crlf
-line` ,}  MetaData f32a { int64 o
-    `tab	here`, i32
-    A, }")).
-Eval vm_compute in ("<<<M492>>>" ++ check (runes_of_ascii "
-root
-packet chars
-    {
-repeat
-a1 { trueish x `" ++ [28040; 24687; 31867; 22411]%N ++ runes_of_ascii "` ,	},
-}
-MetaData metadata { int32
-int
-, f64 uint8x `say ""hi""` //
-, i64 rootA `crlf
-line` ,}
-")).
-Eval vm_compute in ("<<<M4399>>>" ++ check (runes_of_ascii "MetaData o {
-    char[] i64_ `{ , }`,
-    u16 tag,
-    char[] lengthOf `u8 x,`,
-    Z9_ rootA `
-        `,
-    zchar[3] u,
-    float T `{ , }`,
-}")).
-Eval vm_compute in ("<<<M4155>>>" ++ check (runes_of_ascii "packet A {
-    match k as n {
-        [
-            ""a"", ""bb"", ""c c"", ""d"", ""e"",
-            ""f"", ""g""
-        ] : B,
-        2 : C,
-    },
-}")).
-Eval vm_compute in ("<<<M845>>>" ++ check (runes_of_ascii "root
-    packet
-charz
-{ @calculatedFrom( ""a	b""
-) repeat f32a options1
-`u8 x,` ,} options{ // " ++ [27880; 37322]%N ++ runes_of_ascii "
-zchar=
-    char[3 ] ;
-    }
-/// triple
-")).
-Eval vm_compute in ("<<<M4457>>>" ++ check (runes_of_ascii "
+Eval vm_compute in ("<<<M3556>>>" ++ check (runes_of_ascii "
 
   packet
-    calculatedFrom	{
-@tag( 4294967296  // c
+Sub{ u8
+	a
+    , @calculatedFrom( ""CRC16""
     )
-u msg_type
 
-,char[	3
+i16
+SubSum , }	root	packet
 
-    ]crc
+Frame{ u16
+	MsgType  ,
+u16
 
-@lengthOf(	len )	`u8 x,`	,
+    BodyLen@lengthOf(
+    Body
+    ) 
+,Sub
+Body
+,	string
+note
 
+,
+@calculatedFrom(
+""CRC16""	)i16 
+Checksum
+,
+u8 
+tail	, } ")).
+Eval vm_compute in ("<<<M1320>>>" ++ check (runes_of_ascii "root
+packet stringy { match uint8x as roots
+    {
+[ ""a\""b""] :rootA
+, 42
+:
+    int
+    , ""a\\"" : Logon,
+[ 7 ] : o , 65535
+: x	}
+// `tick` ""quote"" 'q'
+// a // b
+,
+@tag( // " ++ [128512]%N ++ runes_of_ascii " emoji
+65535 ) string options1 @lengthOf( Logon
+    ) ,
+    }")).
+Eval vm_compute in ("<<<M240>>>" ++ check (runes_of_ascii "packet T {}  MetaData i8i8{
+    calculatedFrom	u128
+`u8 x,` , string_
+a1	`" ++ [233]%N ++ runes_of_ascii "`
+    ,	Foo
+    int ,
+    zchar[007 ]chars , pack x , crc repeatCount , }packet options1
+{ @tag(1 )char[1]
+f32a ,_x@lengthOf(_x ) ``, } // " ++ [128512]%N ++ runes_of_ascii " emoji")).
+Eval vm_compute in ("<<<M890>>>" ++ check (runes_of_ascii "MetaData pack
+{
+    f64 msg_type ,
+    zchar[4294967296
+    ] Z9_
+, repeatCount chars `two words`, // " ++ [27880; 37322]%N ++ runes_of_ascii "
+} packet options1 {}
+packet options1// " ++ [128512]%N ++ runes_of_ascii " emoji
+{ u128
+// trailing space 
+/// triple
+A
+    ,  repeatCount tag , }
+")).
+Eval vm_compute in ("<<<M2336>>>" ++ check (runes_of_ascii "MetaData Packet { }packet	asx  { @lengthOf( asx) falsey`crlf
+line`
+,
     }
+    packet x	{uint32// @lengthOf(
+rootA	,u32 options1 `say ""hi""` , @tag( 7 7
+    )// packet A { u8 x, }
+msg_type @lengthOf(
+stringy	)	, }
 
 ")).
-Eval vm_compute in ("<<<M1713>>>" ++ check (runes_of_ascii "root packet /// triple
-rootA {	i32
+Eval vm_compute in ("<<<M2237>>>" ++ check (runes_of_ascii "MetaData Packet { }packet	{  asx @lengthOf( asx) falsey`crlf
+line`
+,
+    }
+    packet x	{uint32// @lengthOf(
+rootA	,u32 options1 `say ""hi""` , @tag( 7
+    )// packet A { u8 x, }
+msg_type @lengthOf(
+stringy	)	, }
+
+")).
+Eval vm_compute in ("<<<M2233>>>" ++ check (runes_of_ascii "MetaData Packet { }@tag(	asx  { @lengthOf( asx) falsey`crlf
+line`
+,
+    }
+    packet x	{uint32// @lengthOf(
+rootA	,u32 options1 `say ""hi""` , @tag( 7
+    )// packet A { u8 x, }
+msg_type @lengthOf(
+stringy	)	, }
+
+")).
+Eval vm_compute in ("<<<M2358>>>" ++ check (runes_of_ascii "MetaData Packet { }packet	asx  { @lengthOf( asx) falsey`crlf
+line`
+,
+    }
+    packet x	{uint32// @lengthOf(
+rootA	,u32 options1 `say ""hi""` , @tag( 7
+    )// packet A { u8 x, }
+msg_type @lengthOf(
+u64	)	, }
+
+")).
+Eval vm_compute in ("<<<M2364>>>" ++ check (runes_of_ascii "MetaData Packet { }packet	asx  { @lengthOf( asx) falsey`crlf
+line`
+,
+    }
+    packet x	{uint32// @lengthOf(
+rootA	,u32 options1 `say ""hi""` , @tag( 7
+    )// packet A { u8 x, }
+msg_type @lengthOf(
+stringy")).
+Eval vm_compute in ("<<<M936>>>" ++ check (runes_of_ascii "packet As {	_x  @lengthOf( f32a)
+    `tab	here`
+    , match chars as chars
+// " ++ [27880; 37322]%N ++ runes_of_ascii "
+//	t
+{ """ ++ [233]%N ++ runes_of_ascii "t" ++ [233]%N ++ runes_of_ascii """ :stringy , ""1"" :
+options1
+    , 255: repeatCount, ""CRC32""
+:float , },
+Logon int `` , uint8x metadata , }
+")).
+Eval vm_compute in ("<<<M3975>>>" ++ check (runes_of_ascii "packet As {
+}
+
+MetaData Logon {
+    i16 falsey `a\`,
+}
+
+MetaData T {
+    f64 uint8x `u8 x,`,// " ++ [128512]%N ++ runes_of_ascii " emoji
+    char[00] T,
+    char[0] Pad `crlf
+    line`,
+    char[] f32a,
+    char[] asx,
+}//	t")).
+Eval vm_compute in ("<<<M3498>>>" ++ check (runes_of_ascii "root packet Frame {
+    u8 K,
+    Logon first,
+    match K as Body {
+        1 : Logon,
+        2 : Logout,
+    },
+}
+packet Logon {
+    string user,
+}
+packet Logout {
+    u16 reason,
+}
+")).
+Eval vm_compute in ("<<<M4512>>>" ++ check (runes_of_ascii "packet A {
+    match k as n {
+        ""\
+        "" : B,
+        [""\
+        "", 1] : C,
+        [
+            1, 2, 3, 4, 5,
+            ""\
+            ""
+        ] : D,
+    },
+}")).
+Eval vm_compute in ("<<<M4406>>>" ++ check (runes_of_ascii "root packet BodyLength {
+    lengthOf {
+        char[42] Foo ``,
+        u64 Foo @calculatedFrom(""x y""),
+    },
+    rootA @lengthOf(Packet),
+}
+
+options {
+    Pad = 00
+}")).
+Eval vm_compute in ("<<<M386>>>" ++ check (runes_of_ascii "packet float
+{  zchar[ 65535
+]
+string_
+`doc` , @rightPad (
+    '\x00' )
+    @calculatedFrom(
+    """ ++ [128512]%N ++ runes_of_ascii """ ) i16
+    repeatCount , zchar[
+    65535
+]_x `crlf
+line`
+,}")).
+Eval vm_compute in ("<<<M4335>>>" ++ check (runes_of_ascii "options {
+    // trailing space 
+    A = ' ';
+    calculatedFrom = ""a\""b"";
+    msg_type = char[4294967296];
+    //
+    rootA = '\x00'
+    msg_type = false
+}")).
+Eval vm_compute in ("<<<M1528>>>" ++ check (runes_of_ascii "root packet Foo // " ++ [128512]%N ++ runes_of_ascii " emoji
+{ } options {
+    // a // b
+    tag // `tick` ""quote"" 'q'
+= //	t
+""""
+    ; u8x = zchar[0  ] }
+MetaData
+    int {zchar[ 10]")).
+Eval vm_compute in ("<<<M623>>>" ++ check (runes_of_ascii "packet uint8x
+    // c
+    {
+char[
+    7]stringy
+    @calculatedFrom(""a\""b""  )
+`tab	here` , // c
+@calculatedFrom(
+    ""abc""
+) Logon roots ,}
+")).
+Eval vm_compute in ("<<<M660>>>" ++ check (runes_of_ascii "MetaData tag {
+} MetaData
+pack
+{// packet A { u8 x, }
+} options	{
+MetaDataX='\x00' ;
+leftPad
+// `tick` ""quote"" 'q'
+//x
+= ""{,}"" ; }
+// c
+")).
+Eval vm_compute in ("<<<M1634>>>" ++ check (runes_of_ascii "root packet /// triple
+rootA rootA {	i32
 MetaDataX@calculatedFrom( ""CRC32"" ) `line1
 line2` , } MetaData BodyLength {
 u8
-rootA, } } // c")).
-Eval vm_compute in ("<<<M1689>>>" ++ check (runes_of_ascii "root packet /// triple
-rootA {	i32
-MetaDataX@calculatedFrom( ""CRC32"" ) `line1
-line2` , } MetaData { BodyLength
-u8
 rootA, } // c")).
-Eval vm_compute in ("<<<M1882>>>" ++ check (runes_of_ascii "packet
+Eval vm_compute in ("<<<M3919>>>" ++ check (runes_of_ascii "
+
+  MetaData
+crc {MetaDataX
+    pack
+    //x
+  , 
+    /// triple
+	// c
+} 
+MetaData	repeatCount { 
+        // " ++ [128512]%N ++ runes_of_ascii " emoji
+
+//
+    }
+
+")).
+Eval vm_compute in ("<<<M1503>>>" ++ check (runes_of_ascii "root packet Foo // " ++ [128512]%N ++ runes_of_ascii " emoji
+{ } options {
+    // a // b
+    tag // `tick` ""quote"" 'q'
+= //	t
+""""
+    ; u8x = zchar[0  ] }
+MetaData")).
+Eval vm_compute in ("<<<M3984>>>" ++ check (runes_of_ascii "
+
+  packet rootA
+    {
+
+int
+	@lengthOf(
+
+Packet  // packet A { u8 x, }
+  ) 	 // `tick` ""quote"" 'q'
+	`// not a comment`
+	,
+}
+
+")).
+Eval vm_compute in ("<<<M368>>>" ++ check (runes_of_ascii "MetaData Header
+    {
+    f64 lengthOf,zchar[ 7 ] zchar
+// `tick` ""quote"" 'q'
+// `tick` ""quote"" 'q'
+`doc` ,
+len
+x_y_z
+, } 	 ")).
+Eval vm_compute in ("<<<M1047>>>" ++ check (runes_of_ascii "options{
+//	t
+// " ++ [27880; 37322]%N ++ runes_of_ascii "
+falsey
+    // c
+    =7 u128
+    =""" ++ [233]%N ++ runes_of_ascii "t" ++ [233]%N ++ runes_of_ascii """ calculatedFrom
+// c
+// c
+= ""// no comment"" // trailing space 
+}")).
+Eval vm_compute in ("<<<M1798>>>" ++ check (runes_of_ascii "packet
     Pad // a // b
-{@lengthOf i8i8 @calculatedFrom( ""a	b"") `u8 x,` ,
+{ options @calculatedFrom( ""a	b"") `u8 x,` ,
 } options{ float// " ++ [128512]%N ++ runes_of_ascii " emoji
 = f64 i64_
 =//	t
 00 }
 ")).
-Eval vm_compute in ("<<<M3022>>>" ++ check (runes_of_ascii "packet A {
-    u16 len @lengthOf(body) `a
-    b
-  c`,
-    u32 crc @calculatedFrom(""CRC32"") `a
-    b
-  c`,
-    string body,
-}")).
-Eval vm_compute in ("<<<M1737>>>" ++ check (runes_of_ascii "root packet /// triple
-rootA {	i32
-MetaDataX@calculatedFrom( ""CRC32"" ) `line1
-line2` , } MetaData a" ++ [769]%N ++ runes_of_ascii "b {
-u8
-rootA, } // c")).
-Eval vm_compute in ("<<<M1836>>>" ++ check (runes_of_ascii "packet
+Eval vm_compute in ("<<<M4523>>>" ++ check (runes_of_ascii "
+packet	calculatedFrom {
+	@tag( 4294967296// c
+
+)
+	u
+
+    msg_type ,
+char[
+3	]
+    crc @lengthOf(len ) `u8 x,` , 
+} ")).
+Eval vm_compute in ("<<<M1802>>>" ++ check (runes_of_ascii "packet
     Pad // a // b
-{ i8i8 @calculatedFrom( ""a	b"") `u8 x,` ,
-} options{ { float// " ++ [128512]%N ++ runes_of_ascii " emoji
+{ i8i8 ""a	b"" @calculatedFrom() `u8 x,` ,
+} options{ float// " ++ [128512]%N ++ runes_of_ascii " emoji
 = f64 i64_
 =//	t
 00 }
 ")).
-Eval vm_compute in ("<<<M4424>>>" ++ check (runes_of_ascii "packet A {
-    u16 len @lengthOf(body) `a
-    b`,
-    u32 crc @calculatedFrom(""CRC32"") `a
-    b`,
+Eval vm_compute in ("<<<M1870>>>" ++ check (runes_of_ascii "packet
+    Pad // a // b
+{ i8i8 @calculatedFrom( ""a	b"") `u8 x,` ,
+} options{ float// " ++ [128512]%N ++ runes_of_ascii " emoji
+= f64 i64_
+=//	t
+00 
+")).
+Eval vm_compute in ("<<<M3046>>>" ++ check (runes_of_ascii "packet A {
+    u16 len @lengthOf(body) `tab
+	x`,
+    u32 crc @calculatedFrom(""CRC32"") `tab
+	x`,
     string body,
 }")).
-Eval vm_compute in ("<<<M1655>>>" ++ check (runes_of_ascii "root packet /// triple
-rootA {	i32
-MetaDataX tag ""CRC32"" ) `line1
-line2` , } MetaData BodyLength {
-u8
-rootA, } // c")).
-Eval vm_compute in ("<<<M111>>>" ++ check (runes_of_ascii "root packet Pad {@tag(  3
-)
-    @calculatedFrom(
-""a\""b""
-    )repeat zchar[
-    // " ++ [128512]%N ++ runes_of_ascii " emoji
-    00 ] repeatCount , }")).
-Eval vm_compute in ("<<<M4190>>>" ++ check (runes_of_ascii "packet 
-A
-    {
-match 
-k	as
+Eval vm_compute in ("<<<M2979>>>" ++ check (runes_of_ascii "packet A {
+  match k as n {
+    [""a"", ""bb"", ""c c"", ""d"", ""e"", ""f"", ""g"", ""h"", ""i"", ""j"", ""k""] : B
+    2 : C
+  },
+}")).
+Eval vm_compute in ("<<<M2995>>>" ++ check (runes_of_ascii "packet A {
+  match k as n {
+    [""a"", 22, ""c c"", 4, ""e"", 66, ""g"", 8, ""i"", 10, ""k"", 12] : B,
+    2 : C
+  },
+}")).
+Eval vm_compute in ("<<<M4092>>>" ++ check (runes_of_ascii "
+packet
+	A  {
 
-    n{	[
+    Inner  {
+match k  as n {
+	[
+1 
+,	22	, 007	,
+	4
+	]
+    : B
 
-    1  , 22
     ,
-007
-	, 4	,
-5 ,66 ,  7,  8 
-] :
-B  2
+    }
+	,
+}
+,}
 
-:
-C
-}	, }
 ")).
-Eval vm_compute in ("<<<M3058>>>" ++ check (runes_of_ascii "packet A {
-    match k as n {
-        ""\
-"" : B,
-        [""\
-"", 1] : C,
-        [1,2,3,4,5,""\
-""] : D,
+Eval vm_compute in ("<<<M3345>>>" ++ check (runes_of_ascii "packet calculatedFrom { @tag( // c
+4294967296 ) u msg_type , char[ 3 ] crc @lengthOf( len ) `u8 x,` , }")).
+Eval vm_compute in ("<<<M3853>>>" ++ check (runes_of_ascii "
+packet 
+o{
+@tag(
+42
+    ) repeat// c
+	  x 
+{
+
+    char[
+0123456789 ] 
+i64_ ,
+}	,}
+	options
+
+{
+}
+")).
+Eval vm_compute in ("<<<M3041>>>" ++ check (runes_of_ascii "packet A {
+    Inner {
+        u8 x `
+x`,
+        Deep {
+            u8 y `
+x`,
+        },
     },
 }")).
-Eval vm_compute in ("<<<M2993>>>" ++ check (runes_of_ascii "packet A {
-  match k as n {
-    [1, ""bb"", 007, ""d"", 5, ""f"", 7, ""h"", 9, ""j"", 11, ""l""] : B,
-    2 : C
-  },
-}")).
-Eval vm_compute in ("<<<M3337>>>" ++ check (runes_of_ascii "// c
-packet calculatedFrom { @tag( 4294967296 ) u msg_type , char[ 3 ] crc @lengthOf( len ) `u8 x,` , }")).
-Eval vm_compute in ("<<<M3370>>>" ++ check (runes_of_ascii "packet calculatedFrom { @tag( 4294967296 ) u msg_type , char[ 3 ] crc @lengthOf( len )
+Eval vm_compute in ("<<<M1718>>>" ++ check (runes_of_ascii "root packet /// triple
+rootA {	i32
+MetaDataX@calculatedFrom( ""CRC32"" ) `line1
+line2` , } MetaDa")).
+Eval vm_compute in ("<<<M3221>>>" ++ check (runes_of_ascii "packet Logon {
 // c
-`u8 x,` , }")).
-Eval vm_compute in ("<<<M3870>>>" ++ check (runes_of_ascii "
-packet
-
-    A {match
-    k	as n  { [ ""a"" ,22  , 
-""c c"",
-
-    4 
-,
-
-""e""
-
-    ]  :
-B
-2:C } , 
-}")).
-Eval vm_compute in ("<<<M3185>>>" ++ check (runes_of_ascii "// top
-MetaData // c0
-zchar // c1
-{ // c2
-zchar[ // c3
-3 // c4
-] // c5
-Pad // c6
-, // c7
-} // c8
-")).
-Eval vm_compute in ("<<<M3220>>>" ++ check (runes_of_ascii "packet Logon { // c
 @tag( 42 ) @rightPad ( ' ' ) @leftPad ( ) repeat trueish { string T , } , }")).
-Eval vm_compute in ("<<<M3252>>>" ++ check (runes_of_ascii "packet Logon { @tag( 42 ) @rightPad ( ' ' ) @leftPad ( ) repeat trueish { string T , // c
+Eval vm_compute in ("<<<M3253>>>" ++ check (runes_of_ascii "packet Logon { @tag( 42 ) @rightPad ( ' ' ) @leftPad ( ) repeat trueish { string T ,
+// c
 } , }")).
-Eval vm_compute in ("<<<M4122>>>" ++ check (runes_of_ascii "root packet lengthOf {
-    @tag(4294967296)
-    @calculatedFrom(""" ++ [128512]%N ++ runes_of_ascii """)
-    i32 msg_type `a\`,
-}")).
-Eval vm_compute in ("<<<M4310>>>" ++ check (runes_of_ascii "options {
-    // a // b
-    //
-    Z9_ = char[1]
-    Foo = '0';// `tick` ""quote"" 'q'
-}//	t")).
-Eval vm_compute in ("<<<M1992>>>" ++ check (runes_of_ascii "root
-packet crc
-    { f32a @calculatedFrom( """ ++ [233]%N ++ runes_of_ascii "t" ++ [233]%N ++ runes_of_ascii """ ) )
-    `say ""hi""`, lengthOf `` ,  }")).
-Eval vm_compute in ("<<<M4246>>>" ++ check (runes_of_ascii "options {
-    len = char[10]
-    asx = false;
-    string_ = """";
-}// `tick` ""quote"" 'q'")).
-Eval vm_compute in ("<<<M2016>>>" ++ check (runes_of_ascii "root
-packet crc
-    { f32a @calculatedFrom( """ ++ [233]%N ++ runes_of_ascii "t" ++ [233]%N ++ runes_of_ascii """ )
-    `say ""hi""`, lengthOf ``   }")).
-Eval vm_compute in ("<<<M3593>>>" ++ check (runes_of_ascii "packet i8i8 {
-    int16 stringy @calculatedFrom(""// no comment""),
+Eval vm_compute in ("<<<M4313>>>" ++ check (runes_of_ascii "
+options  {
+	packetx = ' ';
+    } options	{
+	falsey =  
+      // " ++ [128512]%N ++ runes_of_ascii " emoji
+// c
+
+  00
+;
+    } ")).
+Eval vm_compute in ("<<<M3759>>>" ++ check (runes_of_ascii "packet Pad {
+    i8i8 @calculatedFrom(""a	b""),
 }
 
-packet _x {
+options {
+    float = f64
+    i64_ = 00
 }")).
-Eval vm_compute in ("<<<M3311>>>" ++ check (runes_of_ascii "packet o { @tag( 42 ) repeat x {
+Eval vm_compute in ("<<<M653>>>" ++ check (runes_of_ascii "packet lengthOf {} root packet
+    i64_ { char[] BodyLength @lengthOf(Header )`doc` , }")).
+Eval vm_compute in ("<<<M2014>>>" ++ check (runes_of_ascii "root
+packet crc
+    { f32a @calculatedFrom( """ ++ [233]%N ++ runes_of_ascii "t" ++ [233]%N ++ runes_of_ascii """ )
+    `say ""hi""`, lengthOf i64 ,  }")).
+Eval vm_compute in ("<<<M2003>>>" ++ check (runes_of_ascii "root
+packet crc
+    { f32a @calculatedFrom( """ ++ [233]%N ++ runes_of_ascii "t" ++ [233]%N ++ runes_of_ascii """ )
+    `say ""hi""`lengthOf , `` ,  }")).
+Eval vm_compute in ("<<<M908>>>" ++ check (runes_of_ascii "packet T {
+    @lengthOf(As )
+u8x `tab	here` ,	} MetaData f32a {
+uint64 trueish , }")).
+Eval vm_compute in ("<<<M2901>>>" ++ check (runes_of_ascii "packet A {
+  match k as n {
+    [""a"", ""bb"", ""c c"", ""d"", ""e""] : B
+    2 : C
+  },
+}")).
+Eval vm_compute in ("<<<M3320>>>" ++ check (runes_of_ascii "packet o { @tag( 42 ) repeat x { char[ 0123456789 ] i64_ , // c
+} , } options { }")).
+Eval vm_compute in ("<<<M125>>>" ++ check (runes_of_ascii "root
+packet x_y_z{
+// a // b
+// packet A { u8 x, }
+repeat falsey // " ++ [27880; 37322]%N ++ runes_of_ascii "
+`" ++ [233]%N ++ runes_of_ascii "` , }")).
+Eval vm_compute in ("<<<M4432>>>" ++ check (runes_of_ascii "  // `tick` ""quote"" 'q'
+    packet
+zchar { repeat
+char[1 ] 
+f32a
+``
+
+    ,	}")).
+Eval vm_compute in ("<<<M332>>>" ++ check (runes_of_ascii "options
+    { packetx =
+    ' ' ;}options {	falsey =
+// " ++ [128512]%N ++ runes_of_ascii " emoji
 // c
-char[ 0123456789 ] i64_ , } , } options { }")).
-Eval vm_compute in ("<<<M2046>>>" ++ check (runes_of_ascii "root
-packet crc
-    { f32a @calculatedFrom( """ ++ [233]%N ++ runes_of_ascii "t" ++ [233]%N ++ runes_of_ascii """ )
-    `say ""hi""`, a" ++ [769]%N ++ runes_of_ascii "b `` ,  }")).
-Eval vm_compute in ("<<<M2920>>>" ++ check (runes_of_ascii "packet A {
-  match k as n {
-    [1, 22, ""c c"", 4, 5, ""f""] : B
-    2 : C
-  },
-}")).
-Eval vm_compute in ("<<<M1996>>>" ++ check (runes_of_ascii "root
-packet crc
-    { f32a @calculatedFrom( """ ++ [233]%N ++ runes_of_ascii "t" ++ [233]%N ++ runes_of_ascii """ )
-    , lengthOf `` ,  }")).
-Eval vm_compute in ("<<<M2907>>>" ++ check (runes_of_ascii "packet A {
-  match k as n {
-    [1, 22, ""c c"", 4, 5] : B
-    2 : C
-  },
-}")).
-Eval vm_compute in ("<<<M1272>>>" ++ check (runes_of_ascii "  options{
-calculatedFrom //x
-= true i8i8 = ""a	b"";  f32a
-= false
-; }
+00 ; }")).
+Eval vm_compute in ("<<<M2177>>>" ++ check (runes_of_ascii "root
+    // `tick` ""quote"" 'q'
+    packet As { trueish Packet Packet , }
 ")).
-Eval vm_compute in ("<<<M4478>>>" ++ check (runes_of_ascii "  MetaData string_
+Eval vm_compute in ("<<<M3849>>>" ++ check (runes_of_ascii "packet Inner
+	{u8	a
+,
+} root
+
+packet	P
 	{
+Inner ref_obj ,u8
+x  ,  }
 
-Header 
-roots	,
-    } MetaData
-
-MetaDataX {	}
 ")).
-Eval vm_compute in ("<<<M2204>>>" ++ check (runes_of_ascii "root
- @x   // `tick` ""quote"" 'q'
-    packet As { trueish Packet , }
-")).
-Eval vm_compute in ("<<<M1377>>>" ++ check (runes_of_ascii "options
-{ trueish// @lengthOf(
-= // @lengthOf(
-zchar[65535 ]; }
-")).
-Eval vm_compute in ("<<<M2865>>>" ++ check (runes_of_ascii "packet A {
-  match k as n {
-    [""a"", ""bb""] : B,
-    2 : C
-  },
+Eval vm_compute in ("<<<M3412>>>" ++ check (runes_of_ascii "MetaData _x { zchar[ 4294967296 ] lengthOf `// not a comment` ,
+// c
 }")).
-Eval vm_compute in ("<<<M4166>>>" ++ check (runes_of_ascii "MetaData M {
-    u8 x `a
-        b`,
-    T t `a
-        b`,
-}")).
-Eval vm_compute in ("<<<M1227>>>" ++ check (runes_of_ascii "
-MetaData metadata { uint8 metadata
-`a\` ,
-    char len	, }")).
+Eval vm_compute in ("<<<M2188>>>" ++ check (runes_of_ascii "root
+    // `tick` ""quote"" 'q'
+    packet As { trueish Packet , i32
+")).
+Eval vm_compute in ("<<<M918>>>" ++ check (runes_of_ascii "MetaData u128 {options1 // a // b
+falsey ,
+zchar[ 007 //
+] x
+, }
+")).
+Eval vm_compute in ("<<<M2166>>>" ++ check (runes_of_ascii "root
+    // `tick` ""quote"" 'q'
+    packet As  trueish Packet , }
+")).
+Eval vm_compute in ("<<<M3266>>>" ++ check (runes_of_ascii "// top
+options // c0
+{ // c1
+u8x // c2
+= // c3
+3 // c4
+} // c5
+")).
+Eval vm_compute in ("<<<M497>>>" ++ check (runes_of_ascii "packet T { u64
+asx @calculatedFrom( ""// no comment"" ) ,	} 	 ")).
 Eval vm_compute in ("<<<M223>>>" ++ check (runes_of_ascii "options //	t
 {  MetaDataX = // " ++ [128512]%N ++ runes_of_ascii " emoji
 '0';  } /// triple")).
 Eval vm_compute in ("<<<M3173>>>" ++ check (runes_of_ascii "packet A { @tag(1) // a
  @leftPad('0') // b
  char[4] x, }")).
-Eval vm_compute in ("<<<M1922>>>" ++ check (runes_of_ascii "
-packet	As { @calculatedFrom(//x
-""{,}""	lengthOf) , } 	 ")).
-Eval vm_compute in ("<<<M4482>>>" ++ check (runes_of_ascii "  MetaData // c
-zchar
-{ zchar[3 ]
-
-    Pad
+Eval vm_compute in ("<<<M1912>>>" ++ check (runes_of_ascii "
+packet	As { ""{,}""//x
+@calculatedFrom(	)lengthOf , } 	 ")).
+Eval vm_compute in ("<<<M1235>>>" ++ check (runes_of_ascii "root packet Pad { zchar[7 ]
+    float // a // b
 , }
 ")).
-Eval vm_compute in ("<<<M1955>>>" ++ check (runes_of_ascii "
-packet	As { @calculatedFrom(//x
-""{,}""	)a" ++ [769]%N ++ runes_of_ascii "b , } 	 ")).
-Eval vm_compute in ("<<<M3916>>>" ++ check (runes_of_ascii "options {
-    float = ' ';
-    _x = 4294967296;
-}")).
-Eval vm_compute in ("<<<M1771>>>" ++ check (runes_of_ascii "options " ++ [65279]%N ++ runes_of_ascii " { }options {  } // `tick` ""quote"" 'q'")).
-Eval vm_compute in ("<<<M4091>>>" ++ check (runes_of_ascii "
-MetaData
-    // c
-    // @lengthOf(
-
-  T{  } ")).
-Eval vm_compute in ("<<<M2597>>>" ++ check (runes_of_ascii "packet A { repeat B { C { u8 x, }, D d, }, }")).
-Eval vm_compute in ("<<<M1226>>>" ++ check (runes_of_ascii "packet lengthOf { }
-// packet A { u8 x, }
+Eval vm_compute in ("<<<M2406>>>" ++ check (runes_of_ascii "MetaData A
+{
+i64
+options	, } // `tick` ""quote"" 'q'")).
+Eval vm_compute in ("<<<M4517>>>" ++ check (runes_of_ascii "
+MetaData zchar  // c
+	{  zchar[ 3 
+] 
+Pad,	}
 ")).
-Eval vm_compute in ("<<<M3417>>>" ++ check (runes_of_ascii "
-root packet	P {
-char  c
-, u8 x 
-, 
-} ")).
-Eval vm_compute in ("<<<M3188>>>" ++ check (runes_of_ascii "// c
-MetaData zchar { zchar[ 3 ] Pad , }")).
-Eval vm_compute in ("<<<M2146>>>" ++ check (runes_of_ascii "MetaData x
-{// " ++ [128512]%N ++ runes_of_ascii " emoji
-i1%6 stringy , }")).
-Eval vm_compute in ("<<<M2748>>>" ++ check (runes_of_ascii "rD(M@OeK<d_*ItH)vbF,tM+2&sK)bFfhRUIF6y")).
-Eval vm_compute in ("<<<M2104>>>" ++ check (runes_of_ascii "uint64 x
+Eval vm_compute in ("<<<M1925>>>" ++ check (runes_of_ascii "
+packet	As { @calculatedFrom(//x
+""{,}""	) , } 	 ")).
+Eval vm_compute in ("<<<M2414>>>" ++ check (runes_of_ascii "MetaData A
+{
+i64
+a" ++ [769]%N ++ runes_of_ascii "b	, } // `tick` ""quote"" 'q'")).
+Eval vm_compute in ("<<<M1761>>>" ++ check (runes_of_ascii "options { }options {   // `tick` ""quote"" 'q'")).
+Eval vm_compute in ("<<<M355>>>" ++ check (runes_of_ascii "root
+    packet repeatCount {	A	,
+    } 	 ")).
+Eval vm_compute in ("<<<M3151>>>" ++ check (runes_of_ascii "packet A {
+    u8 x,    // c    u8 y,
+}")).
+Eval vm_compute in ("<<<M2781>>>" ++ check (runes_of_ascii "} char[] uint64 @calculatedFrom( ""a	b"" :")).
+Eval vm_compute in ("<<<M2141>>>" ++ check (runes_of_ascii "`MetaData x
 {// " ++ [128512]%N ++ runes_of_ascii " emoji
 i16 stringy , }")).
-Eval vm_compute in ("<<<M3177>>>" ++ check (runes_of_ascii "root // a
- packet // b
- A // c
- { }")).
-Eval vm_compute in ("<<<M2649>>>" ++ check (runes_of_ascii "MetaData M { u8 x @lengthOf(y), }")).
-Eval vm_compute in ("<<<M4007>>>" ++ check (runes_of_ascii "packet A {
-    u8 x `d" ++ [8287]%N ++ runes_of_ascii "`,// c" ++ [8287]%N ++ runes_of_ascii "
+Eval vm_compute in ("<<<M2748>>>" ++ check (runes_of_ascii "rD(M@OeK<d_*ItH)vbF,tM+2&sK)bFfhRUIF6y")).
+Eval vm_compute in ("<<<M3181>>>" ++ check (runes_of_ascii "packet A { u8 x,// a
+
+
+// b
+
+ u8 y, }")).
+Eval vm_compute in ("<<<M1136>>>" ++ check (runes_of_ascii "root packet //	t
+packetx { //x
 }")).
-Eval vm_compute in ("<<<M3063>>>" ++ check (runes_of_ascii "packet A {
- u8 x `d `, // c 
-}")).
-Eval vm_compute in ("<<<M3008>>>" ++ check (runes_of_ascii "packet A {
+Eval vm_compute in ("<<<M3007>>>" ++ check (runes_of_ascii "root packet A {
     u8 x `a
 b`,
 }")).
-Eval vm_compute in ("<<<M1202>>>" ++ check (runes_of_ascii "options {tag = ""it's"" ;
-}
+Eval vm_compute in ("<<<M2622>>>" ++ check (runes_of_ascii "packet A { @leftPad('0' u8 x, }")).
+Eval vm_compute in ("<<<M3093>>>" ++ check (runes_of_ascii "packet A {
+ u8 x `d" ++ [8202]%N ++ runes_of_ascii "`, // c" ++ [8202]%N ++ runes_of_ascii "
+}")).
+Eval vm_compute in ("<<<M161>>>" ++ check (runes_of_ascii "packet u {A
+    trueish , }
 ")).
-Eval vm_compute in ("<<<M2090>>>" ++ check (runes_of_ascii "MetaData A { u64 pack, }# ")).
-Eval vm_compute in ("<<<M2595>>>" ++ check (runes_of_ascii "packet A { B { u8 x, }, }")).
-Eval vm_compute in ("<<<M2594>>>" ++ check (runes_of_ascii "packet A { B { u8 x, } }")).
+Eval vm_compute in ("<<<M2596>>>" ++ check (runes_of_ascii "packet A { B { u8 x, } C, }")).
+Eval vm_compute in ("<<<M2445>>>" ++ check (runes_of_ascii "int8 int16 int32 int64 int")).
+Eval vm_compute in ("<<<M2745>>>" ++ check (runes_of_ascii "{ [ as uint64 @tag( char[")).
+Eval vm_compute in ("<<<M3169>>>" ++ check (runes_of_ascii "packet A { // a
+ u8 x, }")).
 Eval vm_compute in ("<<<M2136>>>" ++ check (runes_of_ascii "MetaData x
 {// " ++ [128512]%N ++ runes_of_ascii " emoji
 ")).
-Eval vm_compute in ("<<<M2728>>>" ++ check (runes_of_ascii "zJCp5x,_`*Ps&{Uwa3JY4N")).
-Eval vm_compute in ("<<<M4194>>>" ++ check (runes_of_ascii "// packet A { u8 x, }")).
-Eval vm_compute in ("<<<M2562>>>" ++ check (runes_of_ascii "packet A { repeat }")).
-Eval vm_compute in ("<<<M2738>>>" ++ check (runes_of_ascii """{,}"" char [ match")).
-Eval vm_compute in ("<<<M3122>>>" ++ check (runes_of_ascii "// c" ++ [12]%N ++ runes_of_ascii "
+Eval vm_compute in ("<<<M2636>>>" ++ check (runes_of_ascii "root root packet A { }")).
+Eval vm_compute in ("<<<M4299>>>" ++ check (runes_of_ascii "packet A {
+    // a
+}")).
+Eval vm_compute in ("<<<M2571>>>" ++ check (runes_of_ascii "packet A { x `d`, }")).
+Eval vm_compute in ("<<<M2080>>>" ++ check (runes_of_ascii "MetaData A { u64 p")).
+Eval vm_compute in ("<<<M3112>>>" ++ check (runes_of_ascii "// c" ++ [8287]%N ++ runes_of_ascii "
 packet A {
 }")).
-Eval vm_compute in ("<<<M2855>>>" ++ check (runes_of_ascii "65535 65535 false")).
-Eval vm_compute in ("<<<M2834>>>" ++ check (runes_of_ascii "lUfoS)U1$-NNWF,V")).
-Eval vm_compute in ("<<<M2628>>>" ++ check (runes_of_ascii "packet A { } ;")).
-Eval vm_compute in ("<<<M151>>>" ++ check (runes_of_ascii "options { }")).
-Eval vm_compute in ("<<<M2479>>>" ++ check (runes_of_ascii "@leftPad(")).
-Eval vm_compute in ("<<<M2465>>>" ++ check (runes_of_ascii "matches")).
-Eval vm_compute in ("<<<M38>>>" ++ check (runes_of_ascii "
- 	 ")).
-Eval vm_compute in ("<<<M3080>>>" ++ check (runes_of_ascii "// c" ++ [5760]%N)).
-Eval vm_compute in ("<<<M2536>>>" ++ check (runes_of_ascii "A1b2")).
-Eval vm_compute in ("<<<M2541>>>" ++ check (runes_of_ascii "a	b")).
-Eval vm_compute in ("<<<M2681>>>" ++ check (runes_of_ascii "		")).
+Eval vm_compute in ("<<<M2794>>>" ++ check (runes_of_ascii "?" ++ [65533]%N ++ runes_of_ascii "c" ++ [65533; 65533; 65533; 65533; 65533; 15; 65533; 65533]%N ++ runes_of_ascii "g" ++ [65533; 65533; 1439; 26]%N ++ runes_of_ascii "'")).
+Eval vm_compute in ("<<<M2658>>>" ++ check (runes_of_ascii "options { = 1; }")).
+Eval vm_compute in ("<<<M2631>>>" ++ check (runes_of_ascii "packet A { } 1")).
+Eval vm_compute in ("<<<M545>>>" ++ check (runes_of_ascii "options
+{}")).
+Eval vm_compute in ("<<<M2486>>>" ++ check (runes_of_ascii "@lengthOf")).
+Eval vm_compute in ("<<<M4306>>>" ++ check (runes_of_ascii "  // c
+")).
+Eval vm_compute in ("<<<M2431>>>" ++ check (runes_of_ascii "char1")).
+Eval vm_compute in ("<<<M3120>>>" ++ check (runes_of_ascii "// c" ++ [12]%N)).
+Eval vm_compute in ("<<<M3564>>>" ++ check (runes_of_ascii "// c")).
+Eval vm_compute in ("<<<M2676>>>" ++ check (runes_of_ascii """s""")).
+Eval vm_compute in ("<<<M2474>>>" ++ check (runes_of_ascii "'")).
